@@ -12,1866 +12,2129 @@ Definition show_fres (r : fres) : string :=
   end.
 Definition check (rs : list rune) : string := digest (show_fres (format_res rs)).
 Definition full (rs : list rune) : string := show_fres (format_res rs).
-Eval vm_compute in ("<<<M4236>>>" ++ check (runes_of_ascii "
+Eval vm_compute in ("<<<M4233>>>" ++ check (runes_of_ascii "
+// top
+	options  // c0a
 
-  options
-{
-StringPrefixLenType // c2
-	= 	 // c3a
-    // c3b
-u8	// c4
+  // c0b
+  {  LittleEndian 
+	// c2
+  = 
 
-  ;ArrayPrefixLenType  // c6a
-
-  // c6b
-		=// c7a
-  // c7b
-  	u8 
-	// c8
-;  // c9a
-      // c9b
-    FixedStringPadFromLeft	// c10
-
-  =  // c11
-      true	// c12
+// c3
+true  // c4
 ;
+    StringPrefixLenType 
+	    // c6
+		= 	 // c7
+      u32// c8a
+
+	// c8b
+  ; FixedStringPadChar// c10a
+	// c10b
+= 	 // c11
+	  '0'	; 
 // c13
-		FixedStringPadChar 
-      // c14
-  = // c15a
-	// c15b
-	' '	// c16
-  ; 
-    // c17
-	  } 
-      // c18
-	packet	Logout	// c20
+		}// c14a
+
+// c14b
+	packet// c15a
+    // c15b
+		Logout // c16
+  {
+// c17
+    repeat InMsgkind49
+
+    {// c20
+
+  u8  // c21a
+  // c21b
+
+pad0  // c22
+      ,// c23
+      }
+
+    // c24
+    , 	 // c25
+    	repeat// c26
+	char[  // c27a
+	  // c27b
+    5 ]  
+  // c29
+seqNo
+	// c30
+  , // c31
+    repeat// c32a
+
+  // c32b
+  u8 // c33a
+    // c33b
+    	price// c34
+  ,
+}  
+      // c36
+	packet
+// c37
+	  Party // c38a
+    // c38b
   	{
-repeat  // c22a
-  // c22b
-	string  
-  // c23
-Px
-,	// c25a
-    // c25b
-repeat
 
-// c26
-string
-	// c27
-	seqNo
-    // c28
+    // c39
+	zchar[7// c41a
+	// c41b
+	]// c42
+    Qty// c43
+	,  // c44a
+      // c44b
+  } 
+packet  // c46a
+  	// c46b
+  Logon	// c47
+  { 
+        // c48
+repeat InRef10// c50a
+  // c50b
+    {  string	price// c53a
+    	// c53b
+  ,	// c54a
+  // c54b
 
-	, // c29a
-// c29b
-  InMsgkind64 {// c31a
-	// c31b
-	uint16 OrderId
-    , // c34
 	char[] 
-	    // c35
-	count	, // c37a
-  // c37b
-    repeat// c38
-	i32 // c39a
-	// c39b
-	venue  ,
-    }	// c42
-      , 	 // c43a
-	// c43b
-  	} packet Heartbeat  {// c47
+  // c55
+    sym	// c56a
+  	// c56b
+	, // c57
+  repeat // c58a
+    // c58b
+	  Logout	// c59a
+// c59b
+  , // c60
 
-float32  // c48
-	tag7
-        // c49
-  , // c50
-  repeat  // c51
-	InPrice50
-
-    { repeat// c54
-	char[// c55a
-
-// c55b
-
-	5 ] // c57a
-// c57b
-	lastPx// c58
-		, // c59
-		InRef42
-    // c60
-    {  // c61
-	u8
-
-pad0  // c63a
-// c63b
-
-	,// c64a
-
-  // c64b
-		}  // c65a
-  // c65b
-		,  uint32 // c67a
-	// c67b
-
-  Acct 	 // c68a
-		// c68b
-    	,// c69a
-  	// c69b
-	repeat  // c70
-Logout 
-	// c71
-
-  , repeat  // c73
-    char[  
-      // c74
-	5
-
-] 
-    // c76
-		Qty // c77a
-
-	// c77b
-	,// c78
-    }
-	// c79
-    ,	repeat // c81
-
-	InSeqno30
-        // c82
-    	{ 	 // c83a
-  // c83b
-repeat 
-        // c84
-	Logout 	 // c85
-  	, 
-// c86
-    }, 	 // c88
-      @leftPad 	 // c89a
-  // c89b
-
-	('0'
-    // c91
-
-)
-	char[// c93a
-	// c93b
-12 ]
-    // c95
-Acct 	 // c96a
-// c96b
-	, 
-
-    // c97
-
-char[] // c98a
-
-// c98b
-	  Side2,	// c100a
-      // c100b
-  repeat	// c101a
-
-// c101b
-  string 	 // c102a
-// c102b
-msgKind	// c103
-  	,// c104
-
-}  // c105
-	packet  // c106
-	Ack 	 // c107a
-    // c107b
-    {  // c108
-    	Heartbeat	// c109a
-  	// c109b
-	, 
-
-    // c110
-		char[
-    // c111
-  8 
-    // c112
-		] 
-      // c113
-  	seqNo	,
-float64
-clOrdID
-    // c117
-	, } 	 // c119a
-		// c119b
-    packet
-Trade
-
-    {
-
-char[]	// c123a
-      // c123b
-    	OrderId 
-
-// c124
-  ,  // c125
-f64	// c126a
-
-// c126b
-	Side2  // c127
+}	// c61
     , 
-    // c128
-	zchar[ 
-	// c129
-    8	]
-// c131
-f1	// c132a
-	// c132b
-, string
+    // c62
+    repeat // c63a
+  // c63b
+	char[ 3// c65a
+    	// c65b
+      ] 
 
-Qty  // c135a
-  // c135b
-    , // c136
-		float64 	 // c137a
+// c66
 
-  // c137b
-    seqNo
+count 
+  // c67
+  ,
+    // c68
 
-,// c139
-	repeat  // c140a
-		// c140b
-    Logout
+	repeat
+Party// c70
+  , 	 // c71a
+    	// c71b
+char[] 	 // c72a
+    	// c72b
+  tag7
+	,
+// c74
+@rightPad  // c75a
+    // c75b
+    ( 	 // c76a
+		// c76b
+
+'0' )  // c78a
+	// c78b
+	char[  // c79a
+    	// c79b
+
+2
+
+    ] 
+      // c81
+clOrdID
+// c82
+,// c83
+  } packet
+    Order
+    // c86
+
+{ 
+  // c87
+    InTail13// c88
+
+{  // c89
+  Party  
+  // c90
+    	,// c91
+
+}  
+  // c92
+    ,	// c93
+  repeat // c94
+	char[  // c95a
+      // c95b
+	4 
+]  
+      // c97
+    count
+
+    // c98
+
+,	// c99
+  } 
+    // c100
+	  root 	 // c101a
+	// c101b
+	packet	// c102
+
+Cancel{	// c104a
+	// c104b
+Logout
+        // c105
+  ,  // c106a
+	// c106b
+
+@leftPad // c107a
+
+// c107b
+  (
+'0'
+) // c110a
+    	// c110b
+  	char[
+
+    9 	 // c112
+]
+    msgKind 
+,// c115
+string	// c116a
+// c116b
+lastPx  // c117
+
+  ,
+	string	// c119a
+	// c119b
+    tag7 	 // c120a
+	// c120b
+	  ,  
+      // c121
+    zchar[// c122a
+// c122b
+  1 // c123
+    ] 	 // c124
+    OrderId// c125
+      , 
+    // c126
+	repeat
+
+// c127
+    Party 	 // c128a
+    // c128b
+	, // c129
+	u16
+// c130
+    	sym
+    // c131
+	,u16 // c133
+	Acct  @lengthOf(	// c135a
+    	// c135b
+Body  
+      // c136
+)  ,  // c138a
+
+// c138b
+  	match
+// c139
+
+	sym  
+      // c140
+	as
 // c141
-    , 	 // c142
-	}// c143
-    packet
-	    // c144
+    Body 	 // c142a
+	// c142b
+	{
 
-Order 	 // c145
-    	{
+    [// c144a
 
-// c146
-		f32
-// c147
-  OrderId	// c148a
-    // c148b
-  , repeat	// c150
-	u8
-x 
-,	// c153
-		Ack 	 // c154a
-    // c154b
-		,  // c155
-zchar[
-	    // c156
+  // c144b
+	  24	,
+	44  // c147
+  ]  
+      // c148
+  : Logout// c150a
+// c150b
 
-	7] // c158a
-    // c158b
-  Note	, 	 // c160
-}
+  ,	// c151
+  160// c152a
+	// c152b
+: 
+Order	,	// c155
+    91 // c156a
+	// c156b
+: Logon
+,  43	// c160
+: 	 // c161
 
-// c161
-  root packet // c163
-    Logon{ 
-      // c165
-    @rightPad
-( 
-'\x00')  // c169a
-// c169b
-		char[	// c170a
-  // c170b
-9 
-        // c171
-	] 
-  // c172
-  f1
+Party 
+// c162
+  ,  // c163
+	  }  // c164
+  	, u16
+
+    Tail	// c167
+    @calculatedFrom(	// c168a
+
+	// c168b
+  	""CRC32""  )  // c170a
+	// c170b
+, // c171
+    }  // c172
+")).
+Eval vm_compute in ("<<<M4122>>>" ++ check (runes_of_ascii "
+root packet	o
+{ 
+@lengthOf(BodyLength
+	) uint64
+string_
+	@calculatedFrom(
+
+""a\""b""
+)
+    ,repeat tag
+	{
+    match  crc
+    as
+
+lengthOf 
+{ 
+""{,}""
+
+    : 
+//	t
+  	i8i8  , 255
+
+    :trueish  
+  // c
+  	/// triple
+[
+    10 
+    // @lengthOf(
+	, 1
+    ,
+    // " ++ [128512]%N ++ runes_of_ascii " emoji
+    ""abc""
+	, 0123456789
+
+    , 4294967296
+,
+
+    00 ]:
+
+body  }
+,
+	int32
+    uint8x @calculatedFrom( 
+""// no comment"" ) 
+,  // @lengthOf(
+	zchar[
+3 ] msg_type
+    ``	,
+	repeat float32
+pack`it's`  //
+	  ,
+    }
+,
+
+match u	as	_x 
+{00	: calculatedFrom, 255 // @lengthOf(
+  : 
+float
+	, 
+""\n""
+
+:
+	repeatCount
+    ,
+	} ,  @tag( 3) match
+        // c
+  //
+    A 
+as
+
+Z9_ {
+""a\\"" 
+: //x
+
+  rootA ""// no comment""
+
+    : f32a,  [
+
+    ""x y""
+]
+:i64_ }
+    ,
+x_y_z
+
+, int32
+
+f32a 
+,// packet A { u8 x, }
+@leftPad()
+    f32
+    roots
+	,
+
+    @lengthOf( packetx
+    ) 
+@tag(
+
+255
+	)  // c
+    	@tag(
+
+3 )  i32 
+string_
+
+    @calculatedFrom( 
+      //	t
+
+  // packet A { u8 x, }
+  """ ++ [128512]%N ++ runes_of_ascii """ ) `doc`,@leftPad  ( 
+) int8
+    trueish  // `tick` ""quote"" 'q'
+	@lengthOf(
+    uint8x 
+    /// triple
+	// " ++ [27880; 37322]%N ++ runes_of_ascii "
+  )
+,zchar[
+007 ]
+    tag @calculatedFrom(
+""{,}""
+
+),
+
+}	packet leftPad {	string
+
+    Foo , metadata 
+      //	t
+	// " ++ [128512]%N ++ runes_of_ascii " emoji
+u8x
+
     ,
 
-// c174
-    } // c175
-")).
-Eval vm_compute in ("<<<M4181>>>" ++ check (runes_of_ascii "packet u {
-    @leftPad('\x00')
-    match pack as Logon {
-        """ ++ [28040; 24687]%N ++ runes_of_ascii """ : As,
-        ""`tick`"" : asx,
-        0 : float,
-    },
-    // @lengthOf(
-    // " ++ [128512]%N ++ runes_of_ascii " emoji
-    string trueish @calculatedFrom(""a	b""),// " ++ [27880; 37322]%N ++ runes_of_ascii "
-    match matchKey as options1 {
-        //x
-        /// triple
-        00 : lengthOf,
-    },
-    match roots as Header {
-        42 : string_,
-        [
-            10, ""a\""b"", ""\" ++ [233]%N ++ runes_of_ascii """, ""\" ++ [233]%N ++ runes_of_ascii """, ""CRC32"",
-            ""1"", ""it's"", ""abc""
-        ] : lengthOf,
-        ""CRC32"" : As,
-    },
-    char[] falsey,//	t
-    chars @lengthOf(a1),
-    @tag(255)
-    @lengthOf(x)
-    match metadata as rootA {
-        007 : trueish,
-        00 : metadata,
-        [0123456789] : x_y_z,
-        0 : Logon,
-    },
-    @leftPad('\x00')
-    zchar[1] pack `" ++ [233]%N ++ runes_of_ascii "`,
-    @leftPad()
-    match x_y_z as Z9_ {
-        // a // b
-        //x
-        """ ++ [128512]%N ++ runes_of_ascii """ : leftPad,
-    },
-    repeat Z9_ `tab	here`,// trailing space 
-}
+    msg_type	// c
+`
+`
 
-options {
-    uint8x = string;
-}
-
-MetaData MetaDataX {
-    i64_ uint8x,
-    zchar[0] float,
-    char[] packetx `it's`,
-}
-
-root packet crc {
-    @tag(1)
-    i64_ @calculatedFrom(""" ++ [233]%N ++ runes_of_ascii "t" ++ [233]%N ++ runes_of_ascii """),//x
-    @calculatedFrom(""\n"")
-    @calculatedFrom(""it's"")
-    @calculatedFrom(""a\\"")
-    chars uint8x,
-    @tag(7)
-    match Logon as string_ {
-        3 : a1,
-        // " ++ [128512]%N ++ runes_of_ascii " emoji
-    },
-    int16 i64_ `
-    `,
-    @tag(1)
-    falsey T,
-}
-
-root packet Foo {
-    // trailing space 
-    repeat zchar {
-        i64_ @calculatedFrom(""" ++ [233]%N ++ runes_of_ascii "t" ++ [233]%N ++ runes_of_ascii """) `line1
-        line2`,
-        match matchKey as zchar {
-            ""1"" : As,
-            [0] : f32a,
-            [""x y""] : body,
-            ""it's"" : _x,
-            [007, """ ++ [28040; 24687]%N ++ runes_of_ascii """] : matchKey,
-            ""x y"" : x_y_z,
-        },
-        zchar[7] metadata @lengthOf(_x) `// not a comment`,
-        float @lengthOf(matchKey),
-    },
-    packetx @calculatedFrom(""// no comment""),
-    roots @lengthOf(falsey),// " ++ [128512]%N ++ runes_of_ascii " emoji
-    u8 calculatedFrom `{ , }`,
-    char[10] repeatCount `crlf
-    line`,
-    @lengthOf(float)
-    int16 int `two words`,
-    repeat u64 x,
-    i8i8 @lengthOf(Packet) `" ++ [28040; 24687; 31867; 22411]%N ++ runes_of_ascii "`,
-}")).
-Eval vm_compute in ("<<<M869>>>" ++ check (runes_of_ascii "// trailing space 
-root packet options1
-{
-match u8x as tag {1 :As } ,
-// packet A { u8 x, }
-// `tick` ""quote"" 'q'
-} // " ++ [128512]%N ++ runes_of_ascii " emoji
-root  packet
-// " ++ [27880; 37322]%N ++ runes_of_ascii "
-// " ++ [27880; 37322]%N ++ runes_of_ascii "
-roots
-{MetaDataX
-@calculatedFrom(""abc""
-)// " ++ [128512]%N ++ runes_of_ascii " emoji
-, //
-repeat zchar uint8x
 ,
-u8x
-roots
-,// packet A { u8 x, }
-a1	`u8 x,`
-, float32 int@lengthOf( metadata ) `a\`, match
-    charz as i8i8
-    { 42	:Pad [  10  ,
-    ""1"" ] // `tick` ""quote"" 'q'
-:  pack}
-    // packet A { u8 x, }
-    , repeat // c
-Header
-// a // b
-//x
-, } packet repeatCount {
-    @lengthOf( metadata)@calculatedFrom( ""CRC32""
-    )@lengthOf(
-// c
-// " ++ [27880; 37322]%N ++ runes_of_ascii "
-x_y_z )
-    As @lengthOf(
-    u128 ), @calculatedFrom(
-    ""a	b""
-) // " ++ [27880; 37322]%N ++ runes_of_ascii "
-o {  A@calculatedFrom( ""CRC32""
-)
-`it's` , body`{ , }` , }, @calculatedFrom(""packet""
+    @leftPad
+()repeat
+    metadata { 
+      //x
+  //	t
+  char[] 
+      // a // b
+	// packet A { u8 x, }
+	i8i8  @calculatedFrom(
+""CRC32"")
+
+,
+char[
+	1
+
+    ]
+
+rootA
+	,match falsey
+	as  zchar
+
+{
+
+4294967296 
+:
+
+    leftPad }
+, // c
+	char[/// triple
+	007
+    ]
+
+stringy  @lengthOf( 
+    /// triple
+  i64_ )  `a\`  ,	// packet A { u8 x, }
+  }	, @rightPad	(
+	'0' ) @lengthOf(
+    /// triple
+    x
+
     )
-    @lengthOf( A
-) @tag( 255 ) repeat BodyLength trueish ,  u
-{ Pad{ string repeatCount ``/// triple
-, } ,
-}
-    ,@tag(
-    4294967296
-)@tag(
-10 )repeat zchar tag
-,repeat crc {repeat tag	T // " ++ [27880; 37322]%N ++ runes_of_ascii "
-`" ++ [28040; 24687; 31867; 22411]%N ++ runes_of_ascii "`
-    , //
-match
-    // " ++ [128512]%N ++ runes_of_ascii " emoji
-    matchKey as crc {
-4294967296 /// triple
-: tag, """ ++ [128512]%N ++ runes_of_ascii """
-: // @lengthOf(
-Packet 65535: uint8x ,}// @lengthOf(
-,
-pack { f32 zchar @calculatedFrom( ""abc"" )
-,} , match zchar as// @lengthOf(
-options1
-{
+
+    @calculatedFrom(""1""	)
+repeat	roots,
+char[]int @calculatedFrom(
+""" ++ [128512]%N ++ runes_of_ascii """
+    )
+    `a\`,  zchar[
+
+42
+
+    ]
+	stringy ,
+
+@lengthOf(
+
+    chars
+    )
+char[ 255  ]int 
+,crc	@lengthOf(  falsey )
+	`line1
+line2`
+	,  } 
+// trailing space 
+ 
+")).
+Eval vm_compute in ("<<<M3665>>>" ++ check (runes_of_ascii "
+
+  options
+{  msg_type =
+""{,}"" ;
+
+    asx = true; 
+trueish	= 
+""// no comment"" 
+Pad =
+
+    ""\n""
+;	metadata=
+	uint64  ; } root	// @lengthOf(
+packet
+    // @lengthOf(
+	// c
+  int
+
+{ @tag(0123456789 ) 
+@tag( 	 //	t
+    00)
+    @calculatedFrom(""packet""  ) zchar[ 4294967296 ]
+leftPad
+
+    `line1
+line2`
+
+    ,
+	@calculatedFrom(
+
+""x y""
+)
+    falsey @calculatedFrom(	""x y"" 
+
 //
-// @lengthOf(
-0123456789	:x 007  : repeatCount
-[ ""packet""
-    //x
+	// `tick` ""quote"" 'q'
+	) , repeat
+
+uint8
+Packet  ,
+
+@tag(	4294967296
+) u8x
+,
+
+    repeat
+	char[
+42	]
+	Logon`it's`, 
+int16 falsey
+    @calculatedFrom(""it's"" )  
+  //
+
+, msg_type	@lengthOf(leftPad 
+) 
+        /// triple
+
+`" ++ [28040; 24687; 31867; 22411]%N ++ runes_of_ascii "`
+
+, match  string_
+as 
+charz
+
+    { 
+    //
+""it's""  :Foo
+
     ,0123456789
-,
-    ""// no comment"",
-""x y"" ]
-// @lengthOf(
-// " ++ [128512]%N ++ runes_of_ascii " emoji
-:
-Header	, 3: MetaDataX	""// no comment""
-:
-    len  ,  [  0 ] :
-    //x
-    Header ,} ,
-} ,
-repeat f32a {repeat
-    Header  , // " ++ [27880; 37322]%N ++ runes_of_ascii "
-calculatedFrom
-{ a1 {leftPad
-`say ""hi""` ,
-    zchar[ 255 ]//x
-f32a //
-@calculatedFrom(
-""\n"" ) `// not a comment` ,  Foo @lengthOf(o ) //
-`" ++ [233]%N ++ runes_of_ascii "` , } , }	,},} 	 ")).
-Eval vm_compute in ("<<<M588>>>" ++ check (runes_of_ascii "MetaData stringy { } packet Packet
-//	t
-// c
-{ char[007  ] o @calculatedFrom(""1"" ) //	t
-, // @lengthOf(
-}  packet
-    o{ u128	{
-u8 crc  , zchar[	1
-    ] _x
-@lengthOf(  Z9_ )
-    /// triple
-    `doc`
-,
-    char[ 7 ]
-    falsey , }
-, @lengthOf( int) match	chars
-    as
-asx
-{
-[ 255
-]	: x_y_z , 255 : o 0123456789 :
-a1, ""// no comment"" :
-    trueish, }, } packet Z9_	{	@rightPad ( '0')@tag(	00 ) f32
-uint8x @calculatedFrom( //	t
-""" ++ [128512]%N ++ runes_of_ascii """ ) , } packet leftPad {
-match
-roots as trueish { [""{,}""
-,0 // " ++ [128512]%N ++ runes_of_ascii " emoji
-] : BodyLength, 65535 : As 65535 :zchar ,
-3:rootA , 255 : x_y_z ,
-} , @leftPad() float32	x_y_z	, repeat T
-{ u128 @calculatedFrom(
-""CRC32"" ) , char[]
-    tag @lengthOf(MetaDataX)
-,  float  rootA,
-Foo @calculatedFrom(
-    ""packet""
-) , }
-// `tick` ""quote"" 'q'
-//x
-, match x
-as msg_type {
-    3
-:
-u
-} ,@lengthOf( tag
-/// triple
-/// triple
-)
-string  a1,@rightPad( '0'
-    ) @tag(
-// a // b
-// a // b
-7 ) match
-Logon
-// a // b
-//	t
-as
-    /// triple
-    falsey
-    {
-""CRC32"" // c
-:
-    // " ++ [27880; 37322]%N ++ runes_of_ascii "
-    x//
-,4294967296
-: Header,""// no comment""
-    // " ++ [128512]%N ++ runes_of_ascii " emoji
     :
-    charz 00:// trailing space 
-u128
-} , @calculatedFrom(
-""a\""b"" ) @calculatedFrom(""a\""b"") @tag(
-    // " ++ [128512]%N ++ runes_of_ascii " emoji
-    42
-    //x
-    )	repeat zchar[  00
-] falsey	,
-    // " ++ [27880; 37322]%N ++ runes_of_ascii "
-    @tag(// a // b
-4294967296 ) @calculatedFrom( ""abc""
-    )@rightPad( ' '
-    ) crc @calculatedFrom( ""\" ++ [233]%N ++ runes_of_ascii """ // " ++ [128512]%N ++ runes_of_ascii " emoji
-)
+	calculatedFrom 
+""// no comment""
+	:T ,
+	[""// no comment""
+
+    , 65535 , 
+""a\\""
+,  ""abc"" 
 ,
-    u16 metadata , }
-")).
-Eval vm_compute in ("<<<M1269>>>" ++ check (runes_of_ascii "packet a1{ repeat uint8x { zchar[
-    3 ]metadata@lengthOf(  chars ) `it's`
-, u8 packetx @calculatedFrom(""CRC32"" ) `two words`, repeat leftPad {
-match MetaDataX as
-    f32a{ [4294967296
+007
+,// " ++ [27880; 37322]%N ++ runes_of_ascii "
+    ""// no comment"" ,  4294967296
 ]
-: packetx, 255
-: As ,
-[ ""\n"",""\" ++ [233]%N ++ runes_of_ascii """ ,
-    007, """ ++ [128512]%N ++ runes_of_ascii """ , 7 ] :float
-, 0123456789 : /// triple
-u128  ""a\""b"": calculatedFrom ,
-    } ,
-match len	as u { [ 42 , 4294967296 ] : a1 , ""it's""
-    :rootA,7:
-lengthOf ,	""`tick`"" :rootA,
-4294967296	: calculatedFrom , }, repeat string MetaDataX `it's`
-, } , uint16 uint8x , } ,	string_ @lengthOf( u ) ,
-zchar[	0123456789 ]
-pack @calculatedFrom( """"/// triple
-) `u8 x,` , @lengthOf(
-    x_y_z ) @lengthOf( u128
-)
-@tag( 007)zchar[
-10 ]
-    _x `doc`	, string BodyLength ,
-// `tick` ""quote"" 'q'
-// `tick` ""quote"" 'q'
-i64
-msg_type
-`u8 x,`
-, f64 Pad`say ""hi""`
-, string
-// c
-//x
-float , f64 lengthOf @calculatedFrom( """ ++ [28040; 24687]%N ++ runes_of_ascii """ ),// " ++ [128512]%N ++ runes_of_ascii " emoji
-}options { // packet A { u8 x, }
-matchKey =
-    f32 ;}
-packet Foo {repeat
-T // packet A { u8 x, }
-,repeat string_ { i16 uint8x
-,	} // a // b
-, repeat falsey A`doc` , repeat	lengthOf
-    /// triple
-    i8i8
-    `tab	here`,
-repeat char[
-    10	]  x_y_z //
-``, //	t
-@leftPad ( ) @rightPad (
-) options1 `doc`
+: Z9_	} 
+	// packet A { u8 x, }
+	,
+float64
+charz@lengthOf(  Z9_)	`a\`, }
+packet 
+a1
+	{
+}  packet  T
+{}
+packet i64_  { repeat
+	zchar[65535
+
+]
+	Logon ,	@calculatedFrom( ""CRC32""	// " ++ [128512]%N ++ runes_of_ascii " emoji
+) repeat
+string  stringy`crlf
+line`
+, repeat char[ 007
+
+]
+
+leftPad
+
 ,
-u32 packetx,	u8	float `crlf
-line` ,
-    } packet	tag {
-}
-// " ++ [128512]%N ++ runes_of_ascii " emoji
-")).
-Eval vm_compute in ("<<<M4167>>>" ++ check (runes_of_ascii "root packet msg_type {
-    u128,
-    @calculatedFrom(""" ++ [233]%N ++ runes_of_ascii "t" ++ [233]%N ++ runes_of_ascii """)
-    repeat char[3] metadata `crlf
-    line`,
-    char[255] Pad,
-    asx @calculatedFrom(""packet""),
-    repeat stringy `tab	here`,
+	@calculatedFrom( 
+    //
+""abc""	)
+string
+	calculatedFrom	`two words`  , len
+
+{ 
+        // `tick` ""quote"" 'q'
+  float64
+    lengthOf
+
+`" ++ [28040; 24687; 31867; 22411]%N ++ runes_of_ascii "` 
+    // " ++ [27880; 37322]%N ++ runes_of_ascii "
+    	// packet A { u8 x, }
+	,
+}  ,
+
+A @calculatedFrom( 
+""abc"" )
+
+    `line1
+line2`
+,
+
+zchar[	10
+]
+
+    charz
+
+`" ++ [28040; 24687; 31867; 22411]%N ++ runes_of_ascii "`
+	,  repeat 
+Packet
+
+, 
+      // packet A { u8 x, }
+	string As
+
+@lengthOf(
+	roots
+
+    ),
+@tag( 7)Packet chars,
     //x
-    //	t
-    repeat As `two words`,
-    @leftPad('\x00')
-    repeat matchKey `a\`,
-    @rightPad(' ')
-    repeat Pad {
-        repeat u,
-        // trailing space 
-        // packet A { u8 x, }
-        repeat char[] uint8x,
-    },
-    u128 {
-        repeat As `u8 x,`,
-        pack msg_type,
-        uint32 lengthOf @calculatedFrom(""1""),
-        match roots as x {
-            ""{,}"" : Pad,
-        },
-    },
-}
+    // trailing space 
 
-root packet tag {
-    string pack,
-}
+  }
 
-root packet u8x {
-    string pack `doc`,
-    @lengthOf(options1)
-    f32 matchKey @calculatedFrom(""`tick`"") `two words`,
-    @leftPad('\x00')
-    @lengthOf(Packet)
-    @tag(007)
-    int32 Pad @calculatedFrom(""a\\""),
-    @calculatedFrom("""")
-    string a1 @lengthOf(metadata),
-    match u128 as Foo {
-        [""`tick`""] : msg_type,
-        10 : msg_type,
-        00 : len,
-        ""`tick`"" : _x,
-        1 : repeatCount,
-        [1, 1] : pack,
-    },
-    @leftPad()
-    float64 pack `
-    `,
-}")).
-Eval vm_compute in ("<<<M610>>>" ++ check (runes_of_ascii "
-packet  Packet { }
-// @lengthOf(
-// packet A { u8 x, }
-packet f32a{ f32 zchar @calculatedFrom( ""\n"" ) ,
-match
-    float
-    as
-stringy { ""1"" :
-    options1
-""x y"" : pack
-, [
-// " ++ [27880; 37322]%N ++ runes_of_ascii "
-//	t
-""`tick`""
+")).
+Eval vm_compute in ("<<<M4088>>>" ++ check (runes_of_ascii "
+packet
+
+a1 {@lengthOf(
+
+f32a )
+
+    repeat
+    u64
+	string_
+    ,
+    @calculatedFrom(  """" 
+)
+	repeat
+i16
+
+    tag
+	`u8 x,`
 ,
-""a\""b"",
-""// no comment"" ,
-// @lengthOf(
+@tag(
+
+    42  ) @calculatedFrom( 
+""a\\""  )  @calculatedFrom( ""\" ++ [233]%N ++ runes_of_ascii """ ) zchar[
+    10]
+	Foo ,
+    char[ 42 
+        //	t
+    ]
+
+    body`// not a comment` ,	}MetaData 
+roots  {
+uint64
+Z9_
+`{ , }`	, char[] charz
+	`doc`
+
+    ,
+
+uint16  u128 `u8 x,` ,zchar[4294967296  // trailing space 
+]len,  float32
+
+stringy,
+	}packet
+Z9_
+    { 
+@leftPad	( 
+'\x00' 
+)
+@tag( 42  )
+
+@tag( 7)roots
+    x ,
+    @lengthOf(
+int
+
+) crc 
+zchar
+    //	t
+	//
+,  }
+packet string_  {u8 Pad 
+
+// c
+	// " ++ [128512]%N ++ runes_of_ascii " emoji
+	,
+
+    u64
+chars	,@lengthOf(
+
+    Logon
+)	pack
+    , 
+@leftPad 
+()@rightPad	//
+		(
+
+    ' ' )
+	@calculatedFrom( ""a	b"" ) 
+i8 x
+	`crlf
+line`	,
+
+char[ 0123456789	// @lengthOf(
+    	]options1 
+@calculatedFrom( ""{,}""  )`two words`,
+
+    uint64
+	charz`doc`
+
+,
+char[] u128 
+      // packet A { u8 x, }
+	//	t
+	  , @calculatedFrom( ""1"")repeat
+    matchKey{ repeat
+
+    int	o 	 // c
+  ,  }
+
+    ,
+@lengthOf( calculatedFrom
+	)@rightPad  ( 
+'\x00'
+)	@tag( 00
+) MetaDataX 
+{ uint32
+	BodyLength
+
+, 
+}	, 
+    // trailing space 
+
+//
+}
+    packet lengthOf {
+@calculatedFrom(""" ++ [28040; 24687]%N ++ runes_of_ascii """
+)
+    // trailing space 
+	  // " ++ [27880; 37322]%N ++ runes_of_ascii "
+  repeat
+repeatCount
+
+{
+    repeat char[
+7 ] pack `// not a comment`	, } ,
+
+}")).
+Eval vm_compute in ("<<<M1401>>>" ++ check (runes_of_ascii "options {
+	StringPrefixLenType = u16;
+	ArrayPrefixLenType = u16;
+}
+
+packet SampleBinary {
+    uint16 MsgType `" ++ [28040; 24687; 31867; 22411]%N ++ runes_of_ascii "`,
+    u16 BodyLenght @lengthOf(Body) `" ++ [28040; 24687; 20307; 38271; 24230]%N ++ runes_of_ascii "`,
+    match MsgType as Body {
+        1 : Logon,
+        2 : Logout,
+        3 : Heartbeat,
+        4 : RiskControlRequest,
+        5 : RiskControlResponse,
+    },
+        @calculatedFrom(""CRC32"")
+    u32 Ckecksum `" ++ [26657; 39564; 21644]%N ++ runes_of_ascii "`,
+}
+
+packet Logon {
+     @leftPad('0')
+    char[10] UserName `" ++ [29992; 25143; 21517]%N ++ runes_of_ascii "`,
+    string Password `" ++ [23494; 30721]%N ++ runes_of_ascii "`,
+    uint64 ClientId `" ++ [23458; 25143; 31471]%N ++ runes_of_ascii "ID`,
+    u16 HeartbeatInterval `" ++ [24515; 36339; 38388; 38548]%N ++ runes_of_ascii "`,
+}
+
+packet Logout {
+      @rightPad('0')
+    char[10] UserName `" ++ [29992; 25143; 21517]%N ++ runes_of_ascii "`,
+    uint64 ClientId `" ++ [23458; 25143; 31471]%N ++ runes_of_ascii "ID`,
+}
+
+packet Heartbeat {
+}
+
+packet RiskControlRequest {
+    string UniqueOrderId `" ++ [21807; 19968; 35746; 21333; 21495]%N ++ runes_of_ascii "`,
+    char[16] ClOrdID `" ++ [23458; 25143; 35746; 21333; 21495]%N ++ runes_of_ascii "`,
+    char[3] MarketID `" ++ [24066; 22330]%N ++ runes_of_ascii "id`,
+    char[12] SecurityID `" ++ [35777; 21048; 20195; 30721]%N ++ runes_of_ascii "`,
+    char Side `" ++ [20080; 21334; 26041; 21521]%N ++ runes_of_ascii "`,
+    char OrderType `" ++ [35746; 21333; 31867; 22411]%N ++ runes_of_ascii "`,
+    u64 Price `" ++ [20215; 26684]%N ++ runes_of_ascii "`,
+    u32 Qty `" ++ [25968; 37327]%N ++ runes_of_ascii "`,
+    repeat string ExtraInfo `" ++ [38468; 21152; 20449; 24687]%N ++ runes_of_ascii "`,
+    repeat SubOrder {
+    		char[16] ClOrdID `" ++ [23376; 35746; 21333; 21495]%N ++ runes_of_ascii "`,
+    		u64 Price `" ++ [23376; 35746; 21333; 20215; 26684]%N ++ runes_of_ascii "`,
+    		u32 Qty `" ++ [23376; 35746; 21333; 25968; 37327]%N ++ runes_of_ascii "`,
+    	},
+}
+
+packet RiskControlResponse {
+    string UniqueOrderId `" ++ [21807; 19968; 35746; 21333; 21495]%N ++ runes_of_ascii "`,
+    i32 Status `" ++ [29366; 24577]%N ++ runes_of_ascii "`,
+    string Msg `" ++ [32467; 26524; 20449; 24687]%N ++ runes_of_ascii "`,
+    repeat Detail,
+}
+
+packet Detail {
+    string RuleName `" ++ [35268; 21017; 21517; 31216]%N ++ runes_of_ascii "`,
+    u16 Code `" ++ [21407; 22240; 20195; 30721]%N ++ runes_of_ascii "`,
+}")).
+Eval vm_compute in ("<<<M1161>>>" ++ check (runes_of_ascii "MetaData body	{ asx stringy  , f64
+// " ++ [27880; 37322]%N ++ runes_of_ascii "
+// c
+As ``	, Foo Logon `a\`
+    // " ++ [27880; 37322]%N ++ runes_of_ascii "
+    ,
+    packetx asx `" ++ [28040; 24687; 31867; 22411]%N ++ runes_of_ascii "` ,u32 matchKey `line1
+line2`
+,
+    u16  chars , } root
+    packet
+    _x //	t
+{match rootA as repeatCount{
 /// triple
-7,
-""1"" ] : leftPad , 007	:
-    Packet""" ++ [28040; 24687]%N ++ runes_of_ascii """/// triple
-:
+//x
+007 : msg_type /// triple
+[
+4294967296 ,""// no comment""
+    ]
+    : leftPad ,""""
+    :packetx ,0123456789
+    : Logon
+, 10:
+    a1 ,
+    [
+""abc"" , 7 // packet A { u8 x, }
+,
+""CRC32""
+, 0123456789 ,
+255
+    ,""a\""b"" ,""" ++ [128512]%N ++ runes_of_ascii """ ]: len
+    ,}, repeat string trueish , @rightPad ( ) int64 f32a@lengthOf(
+tag  ) ,
+// a // b
+// @lengthOf(
+zchar[ 42 ] lengthOf
+    @lengthOf( tag )`{ , }`
+    ,
+    @tag( 10
+) int32
+//
+//	t
+leftPad `doc`,
     x_y_z
-    , //x
-},
+    chars
+,@calculatedFrom( ""// no comment""
+)
+    @lengthOf(
+_x ) @lengthOf( matchKey)repeat zchar
+    zchar , @calculatedFrom(/// triple
+""a	b""
+    ) repeat
+Pad i8i8 , @tag( 1
+    // c
+    ) repeat int16 metadata
+    , }	options
+{ T = ""`tick`""
+    // packet A { u8 x, }
+    ;
+    crc
+= '\x00' ; // packet A { u8 x, }
+o=
+    ' ' ;
+    } packet matchKey // trailing space 
+{
+zchar[ 0123456789 ]  crc ,@lengthOf(packetx)
+char[]//	t
+uint8x
+    `say ""hi""`, repeat As A, }
+// c
+")).
+Eval vm_compute in ("<<<M110>>>" ++ check (runes_of_ascii "//	t
+packet// `tick` ""quote"" 'q'
+crc {@tag( /// triple
+10
+) uint16/// triple
+matchKey @calculatedFrom( ""\" ++ [233]%N ++ runes_of_ascii """ ) , @calculatedFrom(
+""x y"" )
+u16
+    // a // b
+    Packet  @calculatedFrom(""" ++ [233]%N ++ runes_of_ascii "t" ++ [233]%N ++ runes_of_ascii """) ,string Pad
+    // @lengthOf(
+    @lengthOf(  roots) ,//x
+@tag( 42 ) repeat float{
+    match
+    // @lengthOf(
+    roots
+//	t
+//
+as Z9_
+    { 42: packetx // c
+, } // a // b
+, Pad { pack , uint32 u, repeat Z9_ {
+    packetx
+float ,
+    } , uint64 msg_type
+    `it's` ,
+} ,Header`" ++ [233]%N ++ runes_of_ascii "`
+    , //	t
+char[]stringy ,}	, match // packet A { u8 x, }
+u as a1 //	t
+{ [ 7
+]// " ++ [27880; 37322]%N ++ runes_of_ascii "
+:	zchar
+    ,[255,""a\""b"",  0123456789 , 4294967296
+    ,
+1
+,
+    42, 0 ]
+:Foo
+    [  ""{,}"" ] : a1 , ""// no comment""
+    :
+A ,0
+    : u8x, 255 : Packet
+}	, repeat i64 chars ,
+repeat char[ 0123456789 ]repeatCount
+,
+body  Foo, @calculatedFrom(
+""\n""
+    )char[]
+int
+    @lengthOf(	len
+    )  , @tag( 3) char[]
+A
+`doc`
+    ,
+}
+packet a1  { @rightPad( '0'  )
+    // `tick` ""quote"" 'q'
+    float // a // b
+@lengthOf(
+stringy
+    ) `doc`
+,} options
+    {	As	= 7 crc = ""{,}""
+    u =""it's"" zchar= '\x00'
+}
+")).
+Eval vm_compute in ("<<<M4081>>>" ++ check (runes_of_ascii "
+root 
+packet	rootA {repeat 
+    //x
+  // c
+	uint32	charz	,} 
+packet 
+Packet
+
+{
+    falsey
+
+    charz
+	`say ""hi""` , 
+    // packet A { u8 x, }
+@tag( 
+7  )BodyLength@calculatedFrom( ""a\""b""
+)
+`line1
+line2`
+
+,}
+	root
+
+    packet
+u 	 //x
+  	{zchar[
+    0
+
+    ] 
+msg_type
+@calculatedFrom(
+	""CRC32""  )
+	`tab	here` 
+,  }
+	packet
+
+    tag
+
+    {	@lengthOf( 
+A )	match x 	 //	t
+	  as
+roots
+
+{
+
+    // `tick` ""quote"" 'q'
+
+	// c
+	"""" :
+tag , 00 	 //x
+
+:  packetx
+
+,
+
+    007
+	:	body
+    """ ++ [28040; 24687]%N ++ runes_of_ascii """ :
+	trueish ,  0	:
+
+    lengthOf  , }  , crc  ,
+    string
+Packet  ,
+
+Pad @calculatedFrom( ""a\""b""  )
+
+    , repeat  Pad 
+{
+match	a1
+	as
+
+    trueish{
+	00
+	:trueish 7 :
+calculatedFrom
+
+    , // c
+    [ """"	]
+
+    :	BodyLength ,  [	7
+] :  BodyLength ,
+
+3
+
+: i64_
+
+    0
+    : Pad
+, } ,
+    } 
+	// " ++ [27880; 37322]%N ++ runes_of_ascii "
+    // a // b
+  , 	 //	t
+      string
+    T
+`line1
+line2`
+    ,
+
+    @rightPad(
+' '
+    )
+rootA
+	{
+
+string 
+x  `doc`
+    ,char[ 0 ]
+Packet 
+@calculatedFrom(
+
+""abc"" )
+, } ,
+    }
+")).
+Eval vm_compute in ("<<<M1196>>>" ++ check (runes_of_ascii "options	{metadata=  char[]
+; asx  =
+    ""// no comment""crc
+    = """ ++ [128512]%N ++ runes_of_ascii """ ;
+    }
+packet int { char[ 1 ] BodyLength // packet A { u8 x, }
+,  u8x `say ""hi""` ,  Pad
+, @rightPad
+(  '\x00'	) trueish @calculatedFrom( """ ++ [233]%N ++ runes_of_ascii "t" ++ [233]%N ++ runes_of_ascii """ ) `// not a comment`
+    ,	repeat body /// triple
+, @lengthOf(
+Z9_) match
+    Header as repeatCount
+{
+255 :
+_x ,
+[ 65535, ""a\""b"" ,
+    7,// trailing space 
+65535  , 10,
+""a\""b""
+    , 007, // " ++ [27880; 37322]%N ++ runes_of_ascii "
+""x y""
+] : MetaDataX
+    4294967296
+:
+    msg_type	""{,}""
+    : f32a , ""`tick`"" :
+asx //	t
+, 007
+    : A,} // packet A { u8 x, }
+,  @calculatedFrom(""1"" ) repeat string// packet A { u8 x, }
+crc ,match rootA as
+MetaDataX { ""1""	:
+MetaDataX , 7 // c
+:trueish ,007 : stringy  , 007
+    : i64_ } ,@rightPad
+( '\x00'// a // b
+)
+a1
+    `u8 x,`
+// c
+// a // b
+, }
+packet	int { repeat i64_
+    // c
+    { chars
+repeatCount
+    , } , } root packet
+//
+// c
+x_y_z {} MetaData  i64_  { // `tick` ""quote"" 'q'
+zchar[ /// triple
+7 ] uint8x , // " ++ [128512]%N ++ runes_of_ascii " emoji
+}
+")).
+Eval vm_compute in ("<<<M4112>>>" ++ check (runes_of_ascii "packet
+    Logon
+
+{
+
+    repeat
+
+    char
+    MetaDataX
+`say ""hi""`	, @lengthOf(
+packetx )char[]
+	repeatCount// `tick` ""quote"" 'q'
+
+`doc`, @leftPad(
+'0'  ) @tag(
+    7 )
+	Header 
+@calculatedFrom(
+""""	// " ++ [128512]%N ++ runes_of_ascii " emoji
+
+  )	,
+	@lengthOf(
+
+    /// triple
+  MetaDataX )match  // trailing space 
+
+x 
+
+    //
+      // trailing space 
+
+	as Header 
+
+// trailing space 
+    //	t
+{	""x y""
+	:
+
+    u8x  // trailing space 
+	,
+
+    """ ++ [128512]%N ++ runes_of_ascii """
+	: 	 /// triple
+charz
+
+,
+""" ++ [233]%N ++ runes_of_ascii "t" ++ [233]%N ++ runes_of_ascii """ :// packet A { u8 x, }
+	_x, [3,// " ++ [27880; 37322]%N ++ runes_of_ascii "
+  00 ] 
+: uint8x 
+,  ""it's""//	t
+:	// `tick` ""quote"" 'q'
+rootA [00,
+65535  //x
+
+  ] :
+	zchar}
+    ,	@calculatedFrom( ""// no comment""
+
+) 
+int32  i64_ ,
+    repeat  // " ++ [128512]%N ++ runes_of_ascii " emoji
+	  body
+
+    {zchar[ 10	] BodyLength`line1
+line2`,
+lengthOf Logon,// @lengthOf(
+  repeat float64 i8i8
+,	char[
+0123456789
+] leftPad  // `tick` ""quote"" 'q'
+    `
+`,
+
+}
+,  repeat 
+char[
+    255
+
+    //
+    ]
+a1 `" ++ [28040; 24687; 31867; 22411]%N ++ runes_of_ascii "`
+
+,
+
+    }
+
+")).
+Eval vm_compute in ("<<<M782>>>" ++ check (runes_of_ascii "packet i8i8  { options1 @calculatedFrom(
+""packet""
+// trailing space 
+/// triple
+) `crlf
+line` ,
+    @rightPad (
+' ' //x
+) string
+lengthOf `" ++ [233]%N ++ runes_of_ascii "` ,u64 string_
+, }
+options { options1  = false; } MetaData u
+    { a1
+    options1,
+lengthOf
+// trailing space 
+//	t
+x_y_z `line1
+line2`
+,// c
+MetaDataX
+rootA
+    , zchar[255 ] len ,
+    char[007 ] int //x
+`say ""hi""`,
+// @lengthOf(
+//
+char[ 4294967296] // `tick` ""quote"" 'q'
+stringy, //	t
+} root packet u8x { Z9_ @lengthOf(	Packet
+    ) ,@calculatedFrom(
+""packet"" ) // a // b
+@rightPad (
+'0' //
+)
+@calculatedFrom( ""it's"" )packetx`" ++ [28040; 24687; 31867; 22411]%N ++ runes_of_ascii "`
+    , float64 Packet
+@calculatedFrom(""`tick`"")
+`a\`
+, @leftPad (
+'0' )  match
+len as rootA {
+    // `tick` ""quote"" 'q'
+    ""x y"": uint8x ""1""
+: asx
+, ""a\""b"" :u8x ,
+    } ,// " ++ [27880; 37322]%N ++ runes_of_ascii "
+@lengthOf( tag
+) trueish As , @lengthOf(falsey ) zchar[1 ] a1 , } root packet
+    body
+{ }")).
+Eval vm_compute in ("<<<M613>>>" ++ check (runes_of_ascii "packet o // @lengthOf(
+{repeat char[
+//	t
+// @lengthOf(
+65535] rootA,	}packet repeatCount {@tag( // c
+10)	@lengthOf( _x )  repeat int64 f32a //	t
+`" ++ [233]%N ++ runes_of_ascii "`
+    ,
+    @leftPad
+('0' )@leftPad(
+' '
+    )
+    @tag(3
+    ) // trailing space 
+o`doc` ,
+    // a // b
+    @calculatedFrom( """"
+)string o , @lengthOf( msg_type
+    // c
+    ) match  A as T { [ ""packet""
+, ""a\\""
+    // " ++ [27880; 37322]%N ++ runes_of_ascii "
+    ,
+    1,10 //
+,""x y"" , 3 ]
+: leftPad ,""packet"" : calculatedFrom, //	t
+[255
+//x
+//x
+]:  o
+    , 42  : int ,}
+    , Z9_
+float `a\`
+,
+    char[] u , @lengthOf(i64_ )	string A@lengthOf( // a // b
+int )
+`it's` , @rightPad
+( '0') roots { pack@lengthOf(
+As )
+`crlf
+line`	,// c
+zchar[ 00 ]zchar
+    @lengthOf( // " ++ [128512]%N ++ runes_of_ascii " emoji
+u8x )	,
+    } , @tag(
+    0 )
 @rightPad (
 )
-repeat zchar[ 255] u8x`it's` // " ++ [27880; 37322]%N ++ runes_of_ascii "
-, @calculatedFrom(  ""abc"" // @lengthOf(
-) match	float as uint8x { ""\n"" :len , [1 ]
-: crc[
-    ""packet"" , 0123456789
-, ""\n""
-    // trailing space 
-    ] : asx , """": calculatedFrom
-""\" ++ [233]%N ++ runes_of_ascii """ :
-    roots,
-    } ,	trueish
-    , @lengthOf(
-    i8i8
-)string// @lengthOf(
-body `doc`, @lengthOf(
-    // a // b
-    o ) u32 u , @leftPad
-    (	'0' ) match	zchar	as lengthOf {// `tick` ""quote"" 'q'
-007 // trailing space 
-:  leftPad , } , }packet BodyLength{ a1
-{	repeat
-    char[] calculatedFrom , }
-    , @calculatedFrom(  ""1"" ) repeat
-roots `" ++ [233]%N ++ runes_of_ascii "`,
-@lengthOf( u128 )
-    _x  , match a1 as Logon
-    { 1: len , // a // b
-} ,
-@calculatedFrom(""packet"" ) charz x `tab	here`
+    @calculatedFrom( """ ++ [128512]%N ++ runes_of_ascii """ )
+f32a lengthOf
+`{ , }` , }
+// `tick` ""quote"" 'q'
+")).
+Eval vm_compute in ("<<<M4410>>>" ++ check (runes_of_ascii "
+
+  packet	MetaDataX
+    {  T
+    @lengthOf( 
+        //x
+// a // b
+  trueish 
+) ``
+
+,  @rightPad
+(' '	)  repeat
+
+    options1// @lengthOf(
+    A 	 /// triple
+
+`" ++ [233]%N ++ runes_of_ascii "`//x
+	,options1@lengthOf(lengthOf
+
+)
+    // `tick` ""quote"" 'q'
+	`u8 x,`, }
+root
+    packet 
+As
+	{ repeat Logon  `
+` 
 ,
-    i64
-    matchKey ,
+
+    @calculatedFrom(
+""" ++ [28040; 24687]%N ++ runes_of_ascii """)	// packet A { u8 x, }
+
+zchar[ 3] 
+T	,
+match  Foo
+as
+u{
+    [
+	""`tick`""
+]
+	// `tick` ""quote"" 'q'
+		// @lengthOf(
+
+:
+
+As
+
+    ,
+
+}
+    , 
+} packet 	 //	t
+	  charz {@lengthOf( 
+u 
+)
+
+    match
+
+charz	// @lengthOf(
+
+	as
+    zchar  { [
+	    //	t
+    // @lengthOf(
+""" ++ [128512]%N ++ runes_of_ascii """
+
+,
+	""packet""
+]:
+crc
+
+[
+7
+, 
+10
+
+,
+
+7 ,3  // packet A { u8 x, }
+    ,4294967296
+    // trailing space 
+      ,""a\\"" 
+]:	string_
+,
+[ 
+3 ] :As
+10
+:	uint8x ,65535
+	: matchKey ,  }
+,
+
+    } ")).
+Eval vm_compute in ("<<<M272>>>" ++ check (runes_of_ascii "root packet Header {
+int16 repeatCount ,
+    } //x
+root packet len {  match i8i8
+    as// c
+roots{ [""abc"" , 255 ]
+    : Pad, }  ,	@rightPad ( '\x00' ) @lengthOf(	leftPad
+)float32 As `" ++ [28040; 24687; 31867; 22411]%N ++ runes_of_ascii "` , @calculatedFrom( ""1""
+) zchar[  007
+] // " ++ [128512]%N ++ runes_of_ascii " emoji
+stringy @lengthOf( f32a ) ,}
+    // @lengthOf(
+    packet  BodyLength{
+@lengthOf( trueish ) char[
+7 ]
+    falsey
+@calculatedFrom( """ ++ [128512]%N ++ runes_of_ascii """ )	, @calculatedFrom(""a\""b""
+) x`// not a comment` , @lengthOf(chars ) char[ 65535 ]leftPad
+@calculatedFrom(""" ++ [128512]%N ++ runes_of_ascii """
+) , trueish ,
+string lengthOf
+    , }root
+    packet
+_x
+{ match _x as
+uint8x
+{// c
+[""`tick`"" ,
+""packet""] :
+u, [// `tick` ""quote"" 'q'
+007 , ""abc""
+,255
+    , ""\n"" , 7 , // c
+""a	b"" , 0
+    ]
+    :
+    // c
+    Foo	[ 007 , """ ++ [233]%N ++ runes_of_ascii "t" ++ [233]%N ++ runes_of_ascii """ , 0 ]
+:
+x_y_z //	t
+} ,
+}
+")).
+Eval vm_compute in ("<<<M713>>>" ++ check (runes_of_ascii "packet
+    // @lengthOf(
+    leftPad { match body as chars { 7:Pad[ """" ] :
 //x
-/// triple
-}")).
-Eval vm_compute in ("<<<M3819>>>" ++ check (runes_of_ascii "packet Header {
-    msg_type @lengthOf(leftPad),
-    @calculatedFrom(""x y"")
-    int16 A @calculatedFrom(""" ++ [233]%N ++ runes_of_ascii "t" ++ [233]%N ++ runes_of_ascii """),
-    @calculatedFrom(""packet"")
-    metadata @lengthOf(leftPad),
-    match len as pack {
-        7 : a1,
-        10 : uint8x,
-        ""`tick`"" : options1,
-        00 : repeatCount,
+// trailing space 
+Pad ,[
+""packet"" , 7 , // trailing space 
+""\" ++ [233]%N ++ runes_of_ascii """ // packet A { u8 x, }
+,	3
+, ""1"" ,	""" ++ [233]%N ++ runes_of_ascii "t" ++ [233]%N ++ runes_of_ascii """, 42 ,
+007
+    ] :calculatedFrom [ ""a\\""  ,
+""`tick`""
+    // " ++ [128512]%N ++ runes_of_ascii " emoji
+    , /// triple
+""it's"" ,// " ++ [27880; 37322]%N ++ runes_of_ascii "
+""CRC32""
+    , ""x y"" ,
+    """ ++ [128512]%N ++ runes_of_ascii """
+// `tick` ""quote"" 'q'
+// trailing space 
+,
+    // trailing space 
+    ""a\\"" ] : falsey , } , @lengthOf(a1 )
+@rightPad ( '\x00' ) i64 matchKey ,
+    @lengthOf( o ) _x { tag
+`say ""hi""` //x
+, }
+    , @calculatedFrom( ""\n"")
+// trailing space 
+//x
+body
+    BodyLength
+//x
+//x
+, u16 // packet A { u8 x, }
+msg_type ,// @lengthOf(
+} packet a1  { zchar[
+    4294967296]u
+    // " ++ [27880; 37322]%N ++ runes_of_ascii "
+    ,string Logon`" ++ [233]%N ++ runes_of_ascii "`
+, }")).
+Eval vm_compute in ("<<<M3833>>>" ++ check (runes_of_ascii "// a // b
+root packet charz {
+    @tag(007)
+    repeat u32 chars,
+    Packet `doc`,
+}
+
+MetaData rootA {
+    char[42] Packet `crlf
+    line`,
+}// c
+
+packet asx {
+    repeat calculatedFrom {
+        asx @lengthOf(chars),
+        repeat string x_y_z `line1
+        line2`,
+        repeat u32 i64_ `it's`,
+        A @lengthOf(Logon) `tab	here`,
     },
-    @rightPad('\x00')
-    @tag(10)
+    uint32 asx @lengthOf(BodyLength),
+    // " ++ [27880; 37322]%N ++ runes_of_ascii "
+    // " ++ [27880; 37322]%N ++ runes_of_ascii "
+    char[0123456789] calculatedFrom,
+    repeat Z9_,
+    match asx as uint8x {
+        // c
+        [""{,}"", ""it's"", 7, ""CRC32""] : msg_type,
+        [1] : u8x,
+        ""CRC32"" : T,
+    },
+    i8 charz @calculatedFrom(""x y"") `" ++ [233]%N ++ runes_of_ascii "`,
+}
+
+MetaData u8x {
+    // " ++ [128512]%N ++ runes_of_ascii " emoji
+    i8 T,
+}")).
+Eval vm_compute in ("<<<M1276>>>" ++ check (runes_of_ascii "packet
+As{
+@lengthOf(
+    chars
+)@leftPad( ' ' )	string
+    leftPad @lengthOf(
+    _x ) , @tag( // " ++ [128512]%N ++ runes_of_ascii " emoji
+00
+    /// triple
+    ) match// " ++ [128512]%N ++ runes_of_ascii " emoji
+A as
+    falsey { // `tick` ""quote"" 'q'
+0:
+i64_ ,
+[ ""x y"", ""a\""b"" , ""it's"" ,""x y""  ,
+007 , ""a	b"" ]// `tick` ""quote"" 'q'
+:roots 65535://x
+stringy , }
+,  zchar[4294967296]
+string_ `it's` , int16 Logon `it's` , @calculatedFrom(""" ++ [233]%N ++ runes_of_ascii "t" ++ [233]%N ++ runes_of_ascii """ )repeat char[]// " ++ [27880; 37322]%N ++ runes_of_ascii "
+stringy `a\` ,repeat
+char[3	] crc , @lengthOf( msg_type )  x { u8x  int`two words` ,
+    i8i8 _x // packet A { u8 x, }
+`
+`
+, int8	Logon@lengthOf(
+    Pad) ,} ,@tag(1 )	i64	string_@calculatedFrom( ""\" ++ [233]%N ++ runes_of_ascii """ ) , // packet A { u8 x, }
+char[]
+    Foo  ,  }
+")).
+Eval vm_compute in ("<<<M470>>>" ++ check (runes_of_ascii "packet
+Packet {
+asx , // a // b
+falsey
+`" ++ [233]%N ++ runes_of_ascii "`,
+    @lengthOf( a1 ) @lengthOf( uint8x ) @calculatedFrom( ""it's"" )
+    match u128 as msg_type {0123456789 : charz , 1 :int // packet A { u8 x, }
+""" ++ [233]%N ++ runes_of_ascii "t" ++ [233]%N ++ runes_of_ascii """:
+    metadata , [// packet A { u8 x, }
+""a	b"",
+// c
+// packet A { u8 x, }
+""1"" , ""\" ++ [233]%N ++ runes_of_ascii """ , 007,
+42
+    // trailing space 
+    , 3, 65535 ,007 // c
+]  :
+chars ,// trailing space 
+""\" ++ [233]%N ++ runes_of_ascii """	:crc	,}
+// packet A { u8 x, }
+/// triple
+,
+    //x
+    repeat u64 float ,
+zchar[ 10
+] Header
+,crc ,
+@calculatedFrom(""" ++ [233]%N ++ runes_of_ascii "t" ++ [233]%N ++ runes_of_ascii """
+    ) @calculatedFrom(
+""\n"") float32  A @lengthOf( Foo ) , string As
+@lengthOf( body), u64 asx
+, uint32
+tag // c
+, }
+")).
+Eval vm_compute in ("<<<M3262>>>" ++ check (runes_of_ascii "// top
+MetaData // c0
+x_y_z // c1a
+  // c1b
+{ // c2
+char // c3a
+  // c3b
+body // c4
+, // c5a
+  // c5b
+f64 // c6
+i8i8 // c7a
+  // c7b
+`two words` // c8
+, // c9a
+  // c9b
+body // c10
+body `" ++ [28040; 24687; 31867; 22411]%N ++ runes_of_ascii "`
+    // c12
+, } // c14a
+  // c14b
+root packet chars // c17a
+  // c17b
+{
+    // c18
+@lengthOf( // c19a
+  // c19b
+i64_ // c20a
+  // c20b
+) chars , // c23a
+  // c23b
+i8i8
+    // c24
+{ // c25a
+  // c25b
+falsey
+    // c26
+@lengthOf( stringy ) // c29a
+  // c29b
+`doc` ,
+    // c31
+} // c32
+, x @lengthOf( // c35a
+  // c35b
+A // c36
+) // c37a
+  // c37b
+`crlf
+line`
+    // c38
+, } // c40a
+  // c40b
+")).
+Eval vm_compute in ("<<<M1282>>>" ++ check (runes_of_ascii "packet matchKey{char u128@calculatedFrom( ""CRC32""
+    //x
+    )
+`{ , }`
+, }
+    MetaData
+    leftPad
+//
+// c
+{ uint8x lengthOf
+// packet A { u8 x, }
+// @lengthOf(
+, o
+    f32a
+// a // b
+/// triple
+,zchar[7 ] Z9_ ,
+}
+packet body {	@tag( 255)
+repeatCount @lengthOf( BodyLength )
+, @tag( 7 ) repeat zchar[ 4294967296]i64_ , match x_y_z	as Header {""`tick`""
+: rootA , }  ,@calculatedFrom(
+""packet""
+    ) rootA
+    {  uint64
+string_
+, char[ // " ++ [27880; 37322]%N ++ runes_of_ascii "
+65535 ] BodyLength	@calculatedFrom(""a\""b"" ) `tab	here`
+    ,
+    int64 pack `line1
+line2`
+    ,}	, }
+")).
+Eval vm_compute in ("<<<M796>>>" ++ check (runes_of_ascii "//
+packet
+options1 { @leftPad (
+    ) char[ 4294967296] Z9_@lengthOf(i64_ )`" ++ [28040; 24687; 31867; 22411]%N ++ runes_of_ascii "` , }
+    options {} packet len
+{ u16
+    lengthOf , repeat
+    matchKey f32a
+,  string i64_ @calculatedFrom(  ""`tick`""  ) , zchar[ // @lengthOf(
+0
+]
+repeatCount ,stringy , _x {repeat As`crlf
+line`// `tick` ""quote"" 'q'
+, repeat Header MetaDataX,
+match
+    As as asx{
+    [ """ ++ [128512]%N ++ runes_of_ascii """
+// trailing space 
+// " ++ [128512]%N ++ runes_of_ascii " emoji
+] : len }	, repeat
+int16 u8x `say ""hi""`
+    ,}
+    , repeat char[] trueish , u32 tag @calculatedFrom( ""a\\"" ) `two words` , }
+")).
+Eval vm_compute in ("<<<M1085>>>" ++ check (runes_of_ascii "packet// a // b
+u8x{// a // b
+len
+    { o roots , match
+string_// c
+as
+repeatCount { [
+""`tick`"" ,""" ++ [128512]%N ++ runes_of_ascii """
+    ,// " ++ [128512]%N ++ runes_of_ascii " emoji
+7
+,""" ++ [233]%N ++ runes_of_ascii "t" ++ [233]%N ++ runes_of_ascii """ ,
+    10 , ""packet"" ,""\" ++ [233]%N ++ runes_of_ascii """  ] : roots ,[
+10,1 ]
+:
+    leftPad , } ,
+// c
+// c
+u  T // packet A { u8 x, }
+, zchar[ 3 // a // b
+] float `" ++ [28040; 24687; 31867; 22411]%N ++ runes_of_ascii "` ,} ,
+    } MetaData
+asx{ zchar[
+    10 ] BodyLength , roots tag , } MetaData zchar
+{uint64
+chars `" ++ [28040; 24687; 31867; 22411]%N ++ runes_of_ascii "`
+    ,char[]Logon
+, Packet o`crlf
+line` ,
+falsey float,
+    // @lengthOf(
+    char[]
+    uint8x , int  A`it's`, }")).
+Eval vm_compute in ("<<<M4191>>>" ++ check (runes_of_ascii "packet
+
+float// a // b
+	{// c
+}
+
+    packet
+u128 
+{@calculatedFrom( ""1""
+    )
+asx
+x_y_z
+`" ++ [28040; 24687; 31867; 22411]%N ++ runes_of_ascii "`
+	, }
+
+    root packet u8x{
+repeat
+uint8x
+T
+    ,
+
+    } packet 
+leftPad{ i64_
+    ,
+
+    @leftPad
+( '0'
+
+)
+	repeat
+tag
+
+    , repeat
+	uint8x
+    {  matchKey  @calculatedFrom(
+""abc""  )
+, string
+charz,
+
+    }// trailing space 
+	,
+@rightPad(
+
+    )zchar[
+	10
+]
+
+charz @calculatedFrom(  """ ++ [128512]%N ++ runes_of_ascii """ )`// not a comment`	,	// trailing space 
+	}
+    // @lengthOf(
+")).
+Eval vm_compute in ("<<<M4350>>>" ++ check (runes_of_ascii "root packet uint8x {
     @tag(7)
-    repeat char[42] As `two words`,
-    @tag(65535)
-    zchar @lengthOf(body) `" ++ [28040; 24687; 31867; 22411]%N ++ runes_of_ascii "`,
-    @tag(255)
-    // packet A { u8 x, }
-    repeat Packet {
-        repeat char falsey `two words`,
-        repeat T {
-            char[] chars,
-            repeat f32a {
-                // packet A { u8 x, }
-                repeat char[] falsey `tab	here`,
-            },
+    @leftPad()
+    // a // b
+    repeat Logon {
+        chars @calculatedFrom(""x y"") `tab	here`,
+        match falsey as uint8x {
+            7 : Logon,
+            [""\n"", 42] : repeatCount,
+            10 : x,
+            """ ++ [28040; 24687]%N ++ runes_of_ascii """ : i64_,
+            // c
         },
-        match u8x as pack {
-            [1, ""{,}"", ""\" ++ [233]%N ++ runes_of_ascii """, ""a	b"", ""\n""] : int,
-            ""x y"" : A,
-            ""CRC32"" : leftPad,
-        },//x
-        f32a x,
+        u128 @calculatedFrom(""a	b"") `crlf
+        line`,
     },
 }
 
 packet charz {
-    repeat lengthOf lengthOf,
-}
-
-options {
-    body = true;
-    metadata = 4294967296;
-    len = uint32;
-}// @lengthOf(")).
-Eval vm_compute in ("<<<M3604>>>" ++ check (runes_of_ascii "packet options1 {
-    body int `" ++ [28040; 24687; 31867; 22411]%N ++ runes_of_ascii "`,
-}
-
-MetaData T {
-    leftPad charz,
-    o roots,
-}
-
-packet float {
-    @lengthOf(x_y_z)
-    repeat i8 calculatedFrom `" ++ [233]%N ++ runes_of_ascii "`,
-    repeat stringy `
-        `,
-    @tag(007)
-    @rightPad(' ')
-    f32a @lengthOf(len),
-    @lengthOf(u8x)
-    match chars as metadata {
-        ""x y"" : matchKey,
-        // trailing space 
-        ""a\""b"" : zchar,
-        [4294967296, ""a\\""] : calculatedFrom,
-        1 : T,
-        7 : i8i8,
-    },
-    u128 tag `" ++ [233]%N ++ runes_of_ascii "`,
-    T @calculatedFrom(""{,}"") `doc`,
-}
-
-packet uint8x {
-}
-
-root packet zchar {
-    @tag(1)
-    match packetx as calculatedFrom {
-        007 : chars,
-        """ ++ [128512]%N ++ runes_of_ascii """ : crc,
-        ""a	b"" : Foo,
-        42 : u8x,
-        [""\" ++ [233]%N ++ runes_of_ascii """] : u8x,
-        [1, 00, ""it's"", ""1"", ""\n""] : MetaDataX,
-    },
-    @tag(00)
-    char x,
-    @leftPad('\x00')
-    @calculatedFrom(""" ++ [28040; 24687]%N ++ runes_of_ascii """)
-    @lengthOf(repeatCount)
-    u128 falsey `doc`,// c
-    falsey @calculatedFrom(""""),
-    float64 Logon @calculatedFrom(""" ++ [28040; 24687]%N ++ runes_of_ascii """) `it's`,
+    @lengthOf(Packet)
+    // " ++ [27880; 37322]%N ++ runes_of_ascii "
+    i64 lengthOf `tab	here`,/// triple
 }")).
-Eval vm_compute in ("<<<M1190>>>" ++ check (runes_of_ascii "packet
-    // a // b
-    leftPad{ matchKey crc ,
-@lengthOf( u128
-) repeat char[ 007
-    ]a1 `
-`
-,
-repeat// " ++ [128512]%N ++ runes_of_ascii " emoji
-Z9_ _x ,@tag(
-42	)@lengthOf( body)@lengthOf( uint8x
-    )
-repeat
-As{matchKey , lengthOf@calculatedFrom(
-    // packet A { u8 x, }
-    ""it's""
-    ) , repeat zchar[
-255
-]
-body
-, char[] u
-    @lengthOf( A )
-    , }, @leftPad(
-    '0'
-    ) string body // @lengthOf(
-`// not a comment` , }packet x_y_z  { } root packet
-T{repeat char[ 3] Logon
-    // trailing space 
-    , //x
-float	@lengthOf(
-    roots)
-`{ , }` ,_x T // " ++ [128512]%N ++ runes_of_ascii " emoji
-`` , }packet Pad {
-@calculatedFrom(""packet"") u16 repeatCount @calculatedFrom( """ ++ [233]%N ++ runes_of_ascii "t" ++ [233]%N ++ runes_of_ascii """ )`// not a comment`
-,
-@tag( 3 )
-    zchar[ 4294967296
-]	repeatCount
-    ,
-    } MetaData body {// packet A { u8 x, }
-u32
-matchKey , T
-repeatCount // " ++ [128512]%N ++ runes_of_ascii " emoji
-`
-` , char[ // c
-007
-    // trailing space 
-    ]
-tag, i8i8 // " ++ [128512]%N ++ runes_of_ascii " emoji
-asx, int u8x
-, int32
-Logon	`say ""hi""` // " ++ [128512]%N ++ runes_of_ascii " emoji
-, }")).
-Eval vm_compute in ("<<<M3504>>>" ++ check (runes_of_ascii "options {
-    LittleEndian = true;
-    StringPrefixLenType = u32;
-    FixedStringPadChar = '0';
-}
-packet Logout {
-    repeat InMsgkind49 {
-        u8 pad0,
-    },
-    repeat char[5] seqNo,
-    repeat u8 price,
-}
-packet Party {
-    zchar[7] Qty,
-}
-packet Logon {
-    repeat InRef10 {
-        string price,
-        char[] sym,
-        repeat Logout,
-    },
-    repeat char[3] count,
-    repeat Party,
-    char[] tag7,
-    @rightPad('0') char[2] clOrdID,
-}
-packet Order {
-    InTail13 {
-        Party,
-    },
-    repeat char[4] count,
-}
-root packet Cancel {
-    Logout,
-    @leftPad('0') char[9] msgKind,
-    string lastPx,
-    string tag7,
-    zchar[1] OrderId,
-    repeat Party,
-    u16 sym,
-    u16 Acct @lengthOf(Body),
-    match sym as Body {
-        [24, 44] : Logout,
-        160 : Order,
-        91 : Logon,
-        43 : Party,
-    },
-    u16 Tail @calculatedFrom(""CR\
-C32""),
-}
-")).
-Eval vm_compute in ("<<<M882>>>" ++ check (runes_of_ascii "packet chars
-{
-    @leftPad	( '0'
-    ) char[]
-MetaDataX
-@lengthOf(
-Foo
-) , @lengthOf(
-    chars
-)repeat
-    BodyLength
-    // `tick` ""quote"" 'q'
-    ,	@lengthOf(MetaDataX  ) @lengthOf( A ) uint8x// trailing space 
-{ u16 Pad @lengthOf(
-// a // b
-/// triple
-charz ) `line1
-line2`, i64_
-{ match
-    i8i8/// triple
-as i8i8  {	7 :calculatedFrom 255 :
-x_y_z
-,
-    0123456789
-    : rootA""packet"" : string_ , 0123456789:  chars
-,	}
-//x
-// " ++ [27880; 37322]%N ++ runes_of_ascii "
-, } , } ,	zchar[3] Header	`two words` , i32 o , @tag(
-4294967296)	pack
-    ``
-    ,
-    repeatCount {
-i8 // " ++ [128512]%N ++ runes_of_ascii " emoji
-i64_ `
-`	, asx
-i64_ , crc { repeat zchar[
-    255 ] repeatCount // c
-,repeat uint8 Packet,
-char
-leftPad
-// packet A { u8 x, }
-// `tick` ""quote"" 'q'
-, uint32 lengthOf	@lengthOf( charz ) , } /// triple
-,
-},
-leftPad `` , repeat int16
-Pad
-    //x
-    ,
-repeat u matchKey, }
-")).
-Eval vm_compute in ("<<<M846>>>" ++ check (runes_of_ascii "// " ++ [128512]%N ++ runes_of_ascii " emoji
+Eval vm_compute in ("<<<M4381>>>" ++ check (runes_of_ascii "
 options
-{ }// a // b
-packet/// triple
-a1  {char[ 10]
-//	t
-// " ++ [128512]%N ++ runes_of_ascii " emoji
-msg_type @calculatedFrom(
-""packet"" )
-    `u8 x,`
-,	crc
-{ float x
-,repeat i32 MetaDataX,}
-    , @calculatedFrom(
-""// no comment"" )//x
-repeat float
-matchKey
-`" ++ [233]%N ++ runes_of_ascii "` ,// `tick` ""quote"" 'q'
-match	lengthOf
-    as asx { [
-    //x
-    1,
-    1
-    ]
-: x_y_z , }
-,
-    @lengthOf(
-tag )
-repeat f32 //x
-A `tab	here` , @calculatedFrom(	""x y"" ) match
-u128 as rootA { 3 : pack , [ ""CRC32"", ""1"" , ""CRC32"" , 7,
-""`tick`"" ,
-""a\\"" ,""{,}""
-, 65535
-] :	repeatCount ,
-3 : f32a
-,
-007 : falsey ""// no comment"" :Header 00 :Foo,}
-, repeat string falsey , @lengthOf( string_
-)// a // b
-stringy, @rightPad	( )@rightPad ( // c
-' '
-    ) @leftPad
-// `tick` ""quote"" 'q'
-// " ++ [128512]%N ++ runes_of_ascii " emoji
-(
-) repeatCount,	@rightPad ( ) // " ++ [27880; 37322]%N ++ runes_of_ascii "
-repeat trueish	,}
-// c
-")).
-Eval vm_compute in ("<<<M3720>>>" ++ check (runes_of_ascii "
-
-  // top
-	MetaData
-    // c0
-x_y_z 
-    // c1
-	{ 
-  // c2
-
-char 
-// c3
-    body 
-// c4
-  ,
-// c5
-f64
-    // c6
-	i8i8
-    // c7
-	`two words` 
-      // c8
-  , 
-        // c9
-	body 
-// c10
-		body 
-        // c11
-	  `" ++ [28040; 24687; 31867; 22411]%N ++ runes_of_ascii "` 
-	    // c12
-  ,
-	    // c13
-	} 
-	    // c14
-root
-        // c15
-  packet 
-    // c16
-    	chars  
-      // c17
-
-{
-	// c18
-
-@lengthOf( 
-
-    // c19
-	i64_
-        // c20
-  )
-        // c21
-  	chars
-        // c22
-	, 
-// c23
-i8i8 
-    // c24
-	{  
-      // c25
-falsey 
-  // c26
-@lengthOf(
-
-    // c27
-  stringy
-
-    // c28
-)
-
-    // c29
-	`doc`
-    // c30
-,  
-      // c31
-    }
-	// c32
-,
-// c33
-x
-	// c34
-	@lengthOf( 
-    // c35
-	A 
-    // c36
-)
-    // c37
-  `crlf
-line`
-	    // c38
-	, 
-    // c39
-  }
-// c40")).
-Eval vm_compute in ("<<<M4205>>>" ++ check (runes_of_ascii "
-// a // b
-  packet matchKey{ @rightPad
-	( 	 // c
-
-	' ' 	 // trailing space 
-	)@tag(	007)
-
-    @lengthOf(float) repeat
-	packetx
-
-    ,
-    // @lengthOf(
-  @calculatedFrom(""a\""b""
-)  /// triple
-
-@tag( 
-255
-	) @tag(  00)
-	Pad
-@calculatedFrom( 
-""" ++ [28040; 24687]%N ++ runes_of_ascii """ )
-`{ , }` ,	}
-    root packet	string_{repeat
-
-Logon  
-  //
-  	//x
-
-{
-
-    match
-	Z9_	as
-float {""packet""
-	:  packetx
-	,
-    [
-""CRC32"" , 42 	 // a // b
-    , 00
-// `tick` ""quote"" 'q'
-  	, 
-""packet""  //
-    ]
-    :
-Foo,  """ ++ [28040; 24687]%N ++ runes_of_ascii """ :BodyLength
-,
-
-[
-""CRC32""
-]
-:  x_y_z
-
-    ,
-	00
-    :  packetx ,7
-	:
-	rootA ,
-
-    }  ,
-	} , repeat
-    // c
-    metadata
-{u16
-Logon  `
-` , matchKey@calculatedFrom( """"  //	t
-      )
-
-    , repeat 	 // c
-
-	char[] leftPad ,
-	} 
-,
-}
-
-")).
-Eval vm_compute in ("<<<M942>>>" ++ check (runes_of_ascii "MetaData
-    body
-    {
-i64 msg_type ,
-// trailing space 
-/// triple
-} packet MetaDataX {	zchar[65535 ] As @lengthOf(
-    matchKey ) `{ , }`,}packet Pad { match
-//x
-// c
-chars as // @lengthOf(
-matchKey
-    //	t
-    { 0123456789 :MetaDataX , 0123456789
-    :
-i8i8 ,[
-"""",
-    // packet A { u8 x, }
-    1 ,  ""x y"" /// triple
-, ""// no comment"" ,
-3
-,
-//x
-// c
-""// no comment"" ,  ""a\""b"" ,
-    65535 ]
-    :  As ,
-    //x
-    [
-255
-, ""1"" , 0, ""packet""]
-: float , ""{,}"" : stringy , ""`tick`"" :
-    Logon,
-} ,
-    repeat
-    //	t
-    Z9_ _x , @leftPad('\x00' )
-/// triple
-// " ++ [27880; 37322]%N ++ runes_of_ascii "
-uint8 charz`// not a comment`
-, //x
-@tag(// " ++ [27880; 37322]%N ++ runes_of_ascii "
-0123456789
-) @rightPad ( '\x00' )
-@tag(
-1 )	stringy	,
-    }")).
-Eval vm_compute in ("<<<M3261>>>" ++ check (runes_of_ascii "// top
-MetaData
-    // c0
-x_y_z
-    // c1
-{
-    // c2
-char
-    // c3
-body
-    // c4
-,
-    // c5
-f64
-    // c6
-i8i8
-    // c7
-`two words`
-    // c8
-,
-    // c9
-body
-    // c10
-body
-    // c11
-`" ++ [28040; 24687; 31867; 22411]%N ++ runes_of_ascii "`
-    // c12
-,
-    // c13
-}
-    // c14
-root
-    // c15
+{ }
 packet
-    // c16
-chars
-    // c17
-{
-    // c18
-@lengthOf(
-    // c19
-i64_
-    // c20
-)
-    // c21
-chars
-    // c22
-,
-    // c23
-i8i8
-    // c24
-{
-    // c25
-falsey
-    // c26
-@lengthOf(
-    // c27
-stringy
-    // c28
-)
-    // c29
-`doc`
-    // c30
-,
-    // c31
-}
-    // c32
-,
-    // c33
-x
-    // c34
-@lengthOf(
-    // c35
-A
-    // c36
-)
-    // c37
-`crlf
-line`
-    // c38
-,
-    // c39
-}
-    // c40
-")).
-Eval vm_compute in ("<<<M1000>>>" ++ check (runes_of_ascii "MetaData rootA
-{u64
-trueish	, metadata calculatedFrom// @lengthOf(
-,
-// " ++ [128512]%N ++ runes_of_ascii " emoji
-// `tick` ""quote"" 'q'
-u8
-u128 ,
-    chars  pack ,
-    zchar lengthOf `line1
-line2` ,
-}root packet //	t
-len{ @lengthOf( trueish)
-i8 Z9_
-`" ++ [28040; 24687; 31867; 22411]%N ++ runes_of_ascii "` , @leftPad
-(
-)
-    match
-zchar // " ++ [27880; 37322]%N ++ runes_of_ascii "
-as trueish {00:As,""" ++ [128512]%N ++ runes_of_ascii """
-    : o
-    ,
-[ 42 ] : a1
-// `tick` ""quote"" 'q'
-// `tick` ""quote"" 'q'
-,
-10// trailing space 
-: len } , repeat As , @leftPad (	'0' )
-int32 calculatedFrom ,
-repeat Header  ,
-    @rightPad
-//
-// " ++ [27880; 37322]%N ++ runes_of_ascii "
-(' ') // packet A { u8 x, }
-calculatedFrom	repeatCount,
-    msg_type @lengthOf( // c
-T ) ,
-    }
-    packet calculatedFrom
-    { }
 
-")).
-Eval vm_compute in ("<<<M3533>>>" ++ check (runes_of_ascii "
+    crc // " ++ [27880; 37322]%N ++ runes_of_ascii "
+    {	calculatedFrom  {zchar[
 
-  options {
-LittleEndian
+7
+]  Logon 
+, // @lengthOf(
+trueish rootA
 
-    =
-    true  ;	FixedStringPadFromLeft
-
-=	true  ;
-    FixedStringPadChar
-	='0' 
-;}
-    packet
-    Trade{	string
-
-clOrdID ,char[]Px
-, u32
-x
-, 
-} 
-packet  Reject  { int32
-	Side2 ,
+    `say ""hi""` 
+      // `tick` ""quote"" 'q'
+	/// triple
+, repeat 
+    // packet A { u8 x, }
+    calculatedFrom
+Z9_	,
 
 repeat
 
-    char[
-3
+MetaDataX
+    { 
+repeat  // " ++ [27880; 37322]%N ++ runes_of_ascii "
+    	char[] int	,
 
-    ]clOrdID
-
-,i32
-tag7
-    ,
-
-}packet
-    Leg {
-}
-root packet	Quote
-{  string 
-Side2 ,
-string
-lastPx,
-InSym58 {int16
-
-OrderId ,  Reject 
-, 
-i8 Qty
-
-    , i64 venue ,
-f32
-Note ,
-}
-    , char[] count ,
-zchar[
-    9  ] price
-    , u16
-Qty
-
-, match
-Qty as 
-Body {69
-
-: Leg , 48:
-
-Trade	, 51 :  Reject,},u16
-	Acct
-	@calculatedFrom( ""CRC32"")  , }")).
-Eval vm_compute in ("<<<M4387>>>" ++ check (runes_of_ascii "options	{ }  // " ++ [27880; 37322]%N ++ runes_of_ascii "
-    	root
-packet
-leftPad {
-match 
-T
-
-    as
-
-    u8x{	// trailing space 
-
-4294967296 
-
-    // packet A { u8 x, }
-  //x
-
-  :
-Logon
-
-,""1"": i8i8
-
-    ,
-
-    0123456789
-    :
-tag,
-""a\""b""	// @lengthOf(
-
-:	//x
-  options1
-,	4294967296 :
-T
-    } ,repeat
-matchKey
-{
-
-    repeat
-
-string
-    rootA
-    , repeat 
-    // @lengthOf(
-	  int64  zchar
-
-`
-` 
-,
-	}
-
-    , i32  x_y_z
-
-, zchar[
-    007
-]  packetx 
-`it's`
-,
-    // a // b
-	  // `tick` ""quote"" 'q'
-    repeat 
-// " ++ [128512]%N ++ runes_of_ascii " emoji
-    zchar[
-
-255 ]	falsey
-    ,
-
-}	// " ++ [27880; 37322]%N ++ runes_of_ascii "
-")).
-Eval vm_compute in ("<<<M1347>>>" ++ check (runes_of_ascii "packet Packet{
-    //x
-    int64 u128 @calculatedFrom(	""it's"" )
-,
-// trailing space 
-// @lengthOf(
-@lengthOf( _x )
-@leftPad (
-) match rootA  as
-calculatedFrom{	""1"" :leftPad ,[
-    42 , """ ++ [128512]%N ++ runes_of_ascii """ ] :pack[ ""it's"",
-3
-//x
-// `tick` ""quote"" 'q'
-, """", """ ++ [128512]%N ++ runes_of_ascii """
-] : As
-, } , char[
-0
-    //
-    ] matchKey `" ++ [233]%N ++ runes_of_ascii "` , u64 lengthOf ,
-@lengthOf( zchar ) // c
-char[ 7
-// " ++ [27880; 37322]%N ++ runes_of_ascii "
-//
-]
-rootA
-@lengthOf( u ),  }MetaData int { u16 // @lengthOf(
-Pad , }	packet stringy {zchar[// `tick` ""quote"" 'q'
-1 ] msg_type`tab	here` , //	t
-} options { x = 00
-    }")).
-Eval vm_compute in ("<<<M815>>>" ++ check (runes_of_ascii "root packet o { options1 repeatCount,
-zchar[ 0 ]_x , @tag( 4294967296
-) char[]
-    options1`doc`
-    , i64_ , u16 len`two words`	,	match
-pack as u{ 10 :
-a1
-,} ,
-@calculatedFrom( ""abc""
-) repeat int int
-`// not a comment`,repeat chars	{
-    lengthOf tag `" ++ [233]%N ++ runes_of_ascii "` , repeat x { repeat uint8 matchKey ``
-, //x
-string// trailing space 
-roots //	t
-`two words`	,int64 len @lengthOf(  Header ) ,}
-,repeat char[]
-// `tick` ""quote"" 'q'
-// " ++ [128512]%N ++ runes_of_ascii " emoji
-Z9_
-`tab	here`	,
-}
-    ,
-// `tick` ""quote"" 'q'
-// c
-} //x")).
-Eval vm_compute in ("<<<M459>>>" ++ check (runes_of_ascii "packet o{
-    @rightPad(  '0'
-    ) @tag(00 ) uint16 i64_ `two words` , //	t
-As `{ , }` , }//	t
-packet len {
-lengthOf`crlf
-line` , metadata ,i32
-    float ,int16 msg_type `" ++ [233]%N ++ runes_of_ascii "` , zchar[ 007 ]
-float `line1
-line2` ,  char[] // c
-falsey ,
-    @rightPad/// triple
-(' '
-) roots stringy`" ++ [233]%N ++ runes_of_ascii "`
-,	@calculatedFrom(
-    // trailing space 
-    """") zchar[ 42 ] trueish , @tag(
-1) f32
-    // @lengthOf(
-    x ,} options
-{ A =
-    ""abc""
-// packet A { u8 x, }
-// " ++ [27880; 37322]%N ++ runes_of_ascii "
-;
-    Packet =42
-}")).
-Eval vm_compute in ("<<<M3919>>>" ++ check (runes_of_ascii "packet u128 {
-    @rightPad()
-    @tag(7)
-    stringy body,
-}// packet A { u8 x, }
-
-root packet i64_ {
-}
-
-packet falsey {
-    float @lengthOf(_x) `" ++ [233]%N ++ runes_of_ascii "`,
-    i32 a1,
-    u {
-        //	t
-        string crc,
-    },
-    @leftPad()
-    repeat options1 {
-        calculatedFrom @calculatedFrom(""it's"") `{ , }`,
-        zchar falsey `u8 x,`,
-        repeat falsey,
-    },
-}
-
-root packet pack {
-    @tag(0123456789)
-    // @lengthOf(
-    repeat uint32 roots,
-}")).
-Eval vm_compute in ("<<<M3567>>>" ++ check (runes_of_ascii "root packet Pad {
-    @leftPad('\x00')
-    @leftPad(' ')
-    calculatedFrom rootA `it's`,
-    T `line1
-        line2`,
-    match pack as int {
-        //
-        0 : x_y_z,
-        [
-            0, 10, 65535, 7, ""1"",
-            """ ++ [128512]%N ++ runes_of_ascii """, ""CRC32""
-        ] : string_,
-        [255, ""abc"", ""CRC32"", ""abc""] : i8i8,
-        10 : Z9_,
-    },
-}
-
-options {
-}
-
-MetaData T {
-    u uint8x,
-    string_ _x,
-    uint16 body `doc`,
-    uint32 tag `a\`,
-}")).
-Eval vm_compute in ("<<<M621>>>" ++ check (runes_of_ascii "packet As {@calculatedFrom( """ ++ [28040; 24687]%N ++ runes_of_ascii """
-    ) repeat float { BodyLength chars `doc`
-,
     }
-, repeat char[ 255 ]packetx , string
-    rootA `line1
-line2` , uint8 i64_ `line1
-line2` ,
-@lengthOf(_x )// trailing space 
-BodyLength
-, stringy{
-    /// triple
-    repeat zchar[  0123456789
-] i8i8 , //
-} ,
-match
-f32a
-as
-u128
-    { [
-    ""// no comment"" // trailing space 
-, ""a\""b"" ] :o ,
-""" ++ [128512]%N ++ runes_of_ascii """:	a1 , }
-, repeat
-    charz zchar
-    , }
-")).
-Eval vm_compute in ("<<<M1209>>>" ++ check (runes_of_ascii "root
-packet Packet{// " ++ [27880; 37322]%N ++ runes_of_ascii "
-@tag( 255 ) @tag( 4294967296 ) match options1 as matchKey { ""CRC32"" :	crc
-, } , @tag( 00 )
-    trueish	,
-repeat lengthOf ,
-@tag(
-    42
-)
-    zchar[ 4294967296 ] Logon@lengthOf(	i64_ )`doc`
-,
-} packet string_// trailing space 
-{ @tag( 4294967296
-    // a // b
-    )
-    repeat zchar[65535
-    ] options1
-`// not a comment`, float32 Packet	@lengthOf(u ) ,
-    int8	Foo
-, }
-")).
-Eval vm_compute in ("<<<M4076>>>" ++ check (runes_of_ascii "root
 
-    packet BodyLength
-{@rightPad	( '\x00'
-)
-repeat char[]len
-    `" ++ [233]%N ++ runes_of_ascii "`	,
-    int32  lengthOf
-``  //x
-
-,
-
-}
-root
-    packet	matchKey{ 
-repeat string
-u8x `line1
-line2`
-,
-	Header  // @lengthOf(
-{
-u128
-    T	, 	 // trailing space 
+    ,
 	}	,
-	} packet 
-uint8x
+rootA
+@calculatedFrom(
 
-    { @lengthOf(
-Header
+    ""it's""
 
-    )a1 @calculatedFrom(
+)
+    , match 
+charz
+as body{
+    0123456789
+:
 
-"""" 
-) 
-	    // `tick` ""quote"" 'q'
+    chars
 
-`" ++ [233]%N ++ runes_of_ascii "` , 
-    //
-// " ++ [128512]%N ++ runes_of_ascii " emoji
-	  } ")).
-Eval vm_compute in ("<<<M3574>>>" ++ check (runes_of_ascii "
+    ,  } ,	}
+")).
+Eval vm_compute in ("<<<M1035>>>" ++ check (runes_of_ascii "  packet//	t
+leftPad
+// @lengthOf(
+//x
+{  falsey `it's` , Packet u128 , // `tick` ""quote"" 'q'
+float calculatedFrom, zchar[1] options1 @calculatedFrom(
+    ""a\\"" ) , zchar[ 42]As ,
+    @rightPad (
+    )
+    T `say ""hi""`, body
+//x
+//
+Header ,
+    f32 T , @calculatedFrom( """ ++ [233]%N ++ runes_of_ascii "t" ++ [233]%N ++ runes_of_ascii """ ) MetaDataX  Pad `// not a comment`
+    , }	packet u {
+/// triple
+// c
+int16
+Header	`say ""hi""` ,
+    } MetaData options1 {} // trailing space ")).
+Eval vm_compute in ("<<<M3721>>>" ++ check (runes_of_ascii "options
+	{ len  = 255
+tag
+=	""" ++ [233]%N ++ runes_of_ascii "t" ++ [233]%N ++ runes_of_ascii """ }
+packet  packetx	{
+
+} options {
+
+    repeatCount
+=
+
+'\x00'
+
+; x 
+=4294967296 len
+
+=false ;
+	A =
+    false	;  Packet	= """"	// " ++ [27880; 37322]%N ++ runes_of_ascii "
+;
+} MetaData
+x	{
+	    //
+	// `tick` ""quote"" 'q'
+      uint32
+roots
+
+    ,
+	lengthOf o
+	`
+`
+,
+
+    u32
+x_y_z`line1
+line2`
+,	int64
+msg_type 
+// a // b
+  //
+  	`crlf
+line` ,  string
+repeatCount
+`line1
+line2` 
+,u128 
+stringy
+
+, }")).
+Eval vm_compute in ("<<<M4016>>>" ++ check (runes_of_ascii "
+
+  MetaData
+
+    len /// triple
+    {//
+f64 T
+
+    `u8 x,`
+	,
+
+    rootA stringy,
+    zchar  repeatCount
+`say ""hi""` ,
+MetaDataX
+	As
+
+    , i8i8 
+string_  ,  x_y_z f32a ,
+	}  options // c
+    {
+
+    Logon
+	    //
+=
+
+string float
+=
+    string
+
+    A =""abc"" /// triple
+	; 
+//
+  A  = ""\" ++ [233]%N ++ runes_of_ascii """	Logon= 7
+}options{ }
+options 
+{  packetx
+	=  ""abc"" // c
+  ;
+
+    x =
+true	}")).
+Eval vm_compute in ("<<<M3762>>>" ++ check (runes_of_ascii "
 // top
-  packet // c0a
-  // c0b
-  o// c1
-	{ 	 // c2a
-	// c2b
-  @tag(	// c3a
+	packet // c0a
 
-  // c3b
-  42	// c4a
+	// c0b
+  o  // c1
+
+	{// c2a
+    // c2b
+
+	@tag( // c3a
+    // c3b
+42	// c4a
 	// c4b
-  ) 
-    // c5
-repeat 
-	// c6
-    x{char[ // c9a
-  // c9b
-	0123456789	// c10
-      ]  // c11a
 
-  // c11b
-  i64_	// c12a
-  // c12b
+)
+    // c5
+  repeat  
+      // c6
+	x	{	char[ 	 // c9a
+  // c9b
+0123456789// c10
+    ] 	 // c11a
+	// c11b
+i64_ 	 // c12a
+
+	// c12b
     ,  
       // c13
-  }, 
-        // c15
+  }  , 
+	    // c15
+}	options // c17a
+  // c17b
+		{ 	 // c18a
+  	// c18b
+    }	// c19a
+	// c19b")).
+Eval vm_compute in ("<<<M3815>>>" ++ check (runes_of_ascii "  // a // b
+
+options {	_x=' '
 }
-options 	 // c17a
-// c17b
-  { // c18a
 
-  // c18b
-    	}  // c19a
-    // c19b
-")).
-Eval vm_compute in ("<<<M3607>>>" ++ check (runes_of_ascii "
-root 
-	    // trailing space 
-  packet 
-  //	t
-	//
-	trueish
-    {
-@tag(
-    0 
-)
-@lengthOf(
+    packet
+    pack
 
-    float
-
-    ) @lengthOf(
-    trueish
+{ } 
+packet
+Foo{ 
+@tag(	10
+)	char	BodyLength@lengthOf(
+_x
 
 )
-repeat
 
-uint8
-    Logon  `line1
-line2`
+    `say ""hi""`  /// triple
+  ,zchar[ 42 ]
+    Foo ,
+	match
 
-,char[]
+string_
+    as
 
-body @lengthOf( 
-A
-	)
+    o
+	{
+    0123456789  : 
+u128
+42 : asx ,}
+,// " ++ [27880; 37322]%N ++ runes_of_ascii "
+  match
+    lengthOf
+as body{
+""1""
+:
 
-`
-`
-
-    , 
-	    // " ++ [128512]%N ++ runes_of_ascii " emoji
-// c
-
-  repeat
-// packet A { u8 x, }
-char[00 ]
-MetaDataX
-
-,
-@leftPad
-
-    ( ) repeat	int8 pack	,
-} ")).
-Eval vm_compute in ("<<<M495>>>" ++ check (runes_of_ascii "root packet BodyLength{ // " ++ [27880; 37322]%N ++ runes_of_ascii "
-repeat metadata msg_type
-`" ++ [28040; 24687; 31867; 22411]%N ++ runes_of_ascii "`
-, string roots	@calculatedFrom(""\n""
-    // a // b
-    ) , repeat u8	repeatCount
-`" ++ [233]%N ++ runes_of_ascii "`
-,
-match x  as metadata {
-""`tick`"": roots 1 :x_y_z , """ ++ [128512]%N ++ runes_of_ascii """:
-Logon	, 7:falsey , }
-    , }
-packet Header // packet A { u8 x, }
-{ crc u,
+u128 ,3 :	chars ,00	: T
+, 
 }
-    MetaData Logon { char[ 65535
-    ]	lengthOf ,} //")).
-Eval vm_compute in ("<<<M64>>>" ++ check (runes_of_ascii "MetaData chars {
-char[] // " ++ [128512]%N ++ runes_of_ascii " emoji
-As `a\` , } packet repeatCount {repeat
-    //x
-    charz
-{ char[ 00 ]	Pad,
-} , @calculatedFrom( ""// no comment"" )
-char[] matchKey //x
-`doc` ,u64 T@lengthOf(
-int
-) , }
-packet Header /// triple
-{  @calculatedFrom(""a\""b"") char[65535 ]
-// trailing space 
+, 
 // `tick` ""quote"" 'q'
-falsey , }
+  }
+")).
+Eval vm_compute in ("<<<M4118>>>" ++ check (runes_of_ascii "
+
+  root 
+packet
+u {@rightPad
+    ('\x00'  ) 
+Logon@calculatedFrom(
+""{,}"" )
+
+    `" ++ [233]%N ++ runes_of_ascii "`, @tag(
+
+3 
+)
+
+string repeatCount
+,  match
+    packetx // " ++ [128512]%N ++ runes_of_ascii " emoji
+as
+	u8x {65535
+	:
+    i8i8 
+//x
+      , 007	// trailing space 
+:
+    roots // " ++ [27880; 37322]%N ++ runes_of_ascii "
+	  ,
+""a	b""
+	:	BodyLength  //	t
+    ,
+	} ,
+@tag( 00
+)
+
+uint32
+
+repeatCount
+@lengthOf(u128 ) 
+,	} ")).
+Eval vm_compute in ("<<<M1083>>>" ++ check (runes_of_ascii "// a // b
+options {
+_x = ' '	} packet pack { } packet Foo { @tag(10
+)
+char BodyLength @lengthOf(	_x )
+`say ""hi""` /// triple
+, zchar[42 ] Foo ,
+    match string_
+    as
+o {
+0123456789: u128 42
+    :
+    asx,
+} , // " ++ [27880; 37322]%N ++ runes_of_ascii "
+match lengthOf as
+    body
+{ ""1"" : u128
+    , 3 : chars , 00
+    :	T, },
+    // `tick` ""quote"" 'q'
+    }
 ")).
 Eval vm_compute in ("<<<M1363>>>" ++ check (runes_of_ascii "packet float {	@lengthOf(	pack ) int16 string_ , } options  {
 leftPad
@@ -1901,43 +2164,7 @@ MetaData body
 { }
 //
 ")).
-Eval vm_compute in ("<<<M4242>>>" ++ check (runes_of_ascii "
-
-  options {
-matchKey  =
-
-007 ;
-pack
-
-    =
-    false ;  // `tick` ""quote"" 'q'
-	float= 
-int8
-
-    options1	=
-char[]
-    x_y_z  = 
-    //
-"""";
-}options {Header  =  // " ++ [128512]%N ++ runes_of_ascii " emoji
-    float64 	 //
-  	; 
-pack	// `tick` ""quote"" 'q'
-		=
-float32 
-;
-string_=char[
-
-    42  ]
-
-Logon =
-
-00
-; } 
-
-    //	t
-")).
-Eval vm_compute in ("<<<M1540>>>" ++ check (runes_of_ascii "root packet Foo // " ++ [128512]%N ++ runes_of_ascii " emoji
+Eval vm_compute in ("<<<M1525>>>" ++ check (runes_of_ascii "root packet Foo // " ++ [128512]%N ++ runes_of_ascii " emoji
 { } options {
     // a // b
     tag // `tick` ""quote"" 'q'
@@ -1946,7 +2173,7 @@ Eval vm_compute in ("<<<M1540>>>" ++ check (runes_of_ascii "root packet Foo // "
     ; u8x = zchar[0  ] }
 MetaData
     int {zchar[ 10]
-lengthOf	`` , i64 i64 u8x`// not a comment` ,MetaDataX pack// `tick` ""quote"" 'q'
+lengthOf lengthOf	`` , i64 u8x`// not a comment` ,MetaDataX pack// `tick` ""quote"" 'q'
 `crlf
 line`
 , Logon charz `crlf
@@ -1955,13 +2182,13 @@ line`
     // a // b
     }
 ")).
-Eval vm_compute in ("<<<M1485>>>" ++ check (runes_of_ascii "root packet Foo // " ++ [128512]%N ++ runes_of_ascii " emoji
+Eval vm_compute in ("<<<M1487>>>" ++ check (runes_of_ascii "root packet Foo // " ++ [128512]%N ++ runes_of_ascii " emoji
 { } options {
     // a // b
     tag // `tick` ""quote"" 'q'
 = //	t
 """"
-    ; u8x = zchar[0  ] ] }
+    ; u8x = zchar[0  true }
 MetaData
     int {zchar[ 10]
 lengthOf	`` , i64 u8x`// not a comment` ,MetaDataX pack// `tick` ""quote"" 'q'
@@ -1973,7 +2200,61 @@ line`
     // a // b
     }
 ")).
-Eval vm_compute in ("<<<M1416>>>" ++ check (runes_of_ascii "root Foo packet // " ++ [128512]%N ++ runes_of_ascii " emoji
+Eval vm_compute in ("<<<M1610>>>" ++ check (runes_of_ascii "root packet Foo // " ++ [128512]%N ++ runes_of_ascii " emoji
+{ } options {
+    // a // b
+    tag // `tick` ""quote"" 'q'
+= //	t
+""""
+    ; u8x = zchar[0  ] }
+' MetaData
+    int {zchar[ 10]
+lengthOf	`` , i64 u8x`// not a comment` ,MetaDataX pack// `tick` ""quote"" 'q'
+`crlf
+line`
+, Logon charz `crlf
+line`
+    ,
+    // a // b
+    }
+")).
+Eval vm_compute in ("<<<M1461>>>" ++ check (runes_of_ascii "root packet Foo // " ++ [128512]%N ++ runes_of_ascii " emoji
+{ } options {
+    // a // b
+    tag // `tick` ""quote"" 'q'
+= //	t
+""""
+    u8x ; = zchar[0  ] }
+MetaData
+    int {zchar[ 10]
+lengthOf	`` , i64 u8x`// not a comment` ,MetaDataX pack// `tick` ""quote"" 'q'
+`crlf
+line`
+, Logon charz `crlf
+line`
+    ,
+    // a // b
+    }
+")).
+Eval vm_compute in ("<<<M1424>>>" ++ check (runes_of_ascii "root packet Foo // " ++ [128512]%N ++ runes_of_ascii " emoji
+ } options {
+    // a // b
+    tag // `tick` ""quote"" 'q'
+= //	t
+""""
+    ; u8x = zchar[0  ] }
+MetaData
+    int {zchar[ 10]
+lengthOf	`` , i64 u8x`// not a comment` ,MetaDataX pack// `tick` ""quote"" 'q'
+`crlf
+line`
+, Logon charz `crlf
+line`
+    ,
+    // a // b
+    }
+")).
+Eval vm_compute in ("<<<M1419>>>" ++ check (runes_of_ascii "root packet  // " ++ [128512]%N ++ runes_of_ascii " emoji
 { } options {
     // a // b
     tag // `tick` ""quote"" 'q'
@@ -1991,595 +2272,450 @@ line`
     // a // b
     }
 ")).
-Eval vm_compute in ("<<<M1576>>>" ++ check (runes_of_ascii "root packet Foo // " ++ [128512]%N ++ runes_of_ascii " emoji
-{ } options {
-    // a // b
-    tag // `tick` ""quote"" 'q'
-= //	t
-""""
-    ; u8x = zchar[0  ] }
-MetaData
-    int {zchar[ 10]
-lengthOf	`` , i64 u8x`// not a comment` ,MetaDataX pack// `tick` ""quote"" 'q'
-`crlf
-line`
-Logon , charz `crlf
-line`
-    ,
-    // a // b
-    }
-")).
-Eval vm_compute in ("<<<M1512>>>" ++ check (runes_of_ascii "root packet Foo // " ++ [128512]%N ++ runes_of_ascii " emoji
-{ } options {
-    // a // b
-    tag // `tick` ""quote"" 'q'
-= //	t
-""""
-    ; u8x = zchar[0  ] }
-MetaData
-    int {true 10]
-lengthOf	`` , i64 u8x`// not a comment` ,MetaDataX pack// `tick` ""quote"" 'q'
-`crlf
-line`
-, Logon charz `crlf
-line`
-    ,
-    // a // b
-    }
-")).
-Eval vm_compute in ("<<<M1592>>>" ++ check (runes_of_ascii "root packet Foo // " ++ [128512]%N ++ runes_of_ascii " emoji
-{ } options {
-    // a // b
-    tag // `tick` ""quote"" 'q'
-= //	t
-""""
-    ; u8x = zchar[0  ] }
-MetaData
-    int {zchar[ 10]
-lengthOf	`` , i64 u8x`// not a comment` ,MetaDataX pack// `tick` ""quote"" 'q'
-`crlf
-line`
-, Logon charz zchar[
-    ,
-    // a // b
-    }
-")).
-Eval vm_compute in ("<<<M3685>>>" ++ check (runes_of_ascii "
-// top
-    packet// c0
-  calculatedFrom	// c1
-    {	// c2
-	@tag(	// c3
-  4294967296	// c4
-    )  // c5
-	u	// c6
+Eval vm_compute in ("<<<M4158>>>" ++ check (runes_of_ascii "options {
+    LittleEndian = true;
+    ArrayPrefixLenType = u64;
+    FixedStringPadFromLeft = false;
+}
 
-msg_type // c7
-,  // c8
-	char[	// c9
+packet Quote {
+}
 
-3 // c10
-
-]	// c11
-  crc  // c12
-	@lengthOf(	// c13
-	len// c14
-    )	// c15
-		`u8 x,` // c16
-  , 	 // c17
-		}  // c18
-")).
-Eval vm_compute in ("<<<M4375>>>" ++ check (runes_of_ascii "packet charz {
-    @lengthOf(Pad)
-    match rootA as string_ {
-        [0123456789] : repeatCount,
-        [00, ""it's""] : T,
-        0 : stringy,
-        4294967296 : msg_type,
+root packet Order {
+    i64 Side2,
+    Quote,
+    u32 Px,
+    match Px as Body {
+        [119, 147] : Quote,
     },
-}
-
-packet lengthOf {
-    @tag(7)
-    char[255] float @calculatedFrom(""packet""),
+    u16 Flags @calculatedFrom(""CR\
+    C32""),
 }")).
-Eval vm_compute in ("<<<M648>>>" ++ check (runes_of_ascii "options { packetx	=' 'chars /// triple
-= ""a\""b"" ; BodyLength
-= false } options{	}
-// " ++ [128512]%N ++ runes_of_ascii " emoji
-// c
-root packet
-A	{
-    @rightPad (
-// a // b
-// @lengthOf(
-'0') crc{
-    i16 calculatedFrom , } , repeat
-i8 Foo
-// trailing space 
-// `tick` ""quote"" 'q'
-,
-}
-")).
-Eval vm_compute in ("<<<M3822>>>" ++ check (runes_of_ascii "
-
-  packet u128 
-{string
-    T	, 
-}
-	packet
-A {
-Pad
-{
-    metadata
-
-    f32a
-, match
-i8i8
-	as//x
-    crc {7
-
-    :a1, [
-""1"" ] : Foo  ,7:  metadata
-    // c
-		,65535
-:
-pack	,
-    } ,
-
-repeat  char[]	string_
-	,	}  /// triple
-	  ,
-	}
-")).
-Eval vm_compute in ("<<<M3443>>>" ++ check (runes_of_ascii "// top
-packet // c0a
-  // c0b
-B // c1a
-  // c1b
-{ u8 // c3a
-  // c3b
-a // c4
-, string
-    // c6
-s , // c8
-} // c9
-root
-    // c10
-packet // c11
-P // c12
-{ u16 L @lengthOf( B ) , // c19
-B // c20a
-  // c20b
-, u8
-    // c22
-t , } // c25
-")).
-Eval vm_compute in ("<<<M3958>>>" ++ check (runes_of_ascii "
-packet leftPad 
-{ 
-//
-    i8 
-string_
-	@calculatedFrom(
-
-    ""\" ++ [233]%N ++ runes_of_ascii """ ) ``
-
-,repeat
-	MetaDataX	{ match
-    u128
-
-as
-asx {
-	""a\\""
-:  T
-, ""CRC32""
-:
-stringy
-	, 0
-    :
-options1,
-
-    }  ,	}/// triple
-
-	,  // " ++ [128512]%N ++ runes_of_ascii " emoji
-
-  }
-")).
-Eval vm_compute in ("<<<M2301>>>" ++ check (runes_of_ascii "MetaData Packet { }packet	asx  { @lengthOf( asx) falsey`crlf
-line`
-,
-    }
-    packet x	{uint32// @lengthOf(
-rootA rootA	,u32 options1 `say ""hi""` , @tag( 7
-    )// packet A { u8 x, }
-msg_type @lengthOf(
-stringy	)	, }
-
-")).
-Eval vm_compute in ("<<<M2276>>>" ++ check (runes_of_ascii "MetaData Packet { }packet	asx  { @lengthOf( asx) falsey`crlf
-line`
-,
-    } }
-    packet x	{uint32// @lengthOf(
-rootA	,u32 options1 `say ""hi""` , @tag( 7
-    )// packet A { u8 x, }
-msg_type @lengthOf(
-stringy	)	, }
-
-")).
-Eval vm_compute in ("<<<M2392>>>" ++ check (runes_of_ascii "MetaData Packet { }packet	asx  { @lengthOf( asx) falsey`crlf
-line`
-,
-    }
-    packet x	{uint32// @lengthOf(
-rootA	,u32 options1 `say " ++ [127]%N ++ runes_of_ascii """hi""` , @tag( 7
-    )// packet A { u8 x, }
-msg_type @lengthOf(
-stringy	)	, }
-
-")).
-Eval vm_compute in ("<<<M2367>>>" ++ check (runes_of_ascii "MetaData Packet { }packet	asx  { @lengthOf( asx) falsey`crlf
-line`
-,
-    }
-    packet x	{uint32// @lengthOf(
-rootA	,u32 options1 `say ""hi""` , @tag( 7
-    )// packet A { u8 x, }
-msg_type @lengthOf(
-stringy	)	} ,
-
-")).
-Eval vm_compute in ("<<<M2250>>>" ++ check (runes_of_ascii "MetaData Packet { }packet	asx  { @lengthOf( ) falsey`crlf
-line`
-,
-    }
-    packet x	{uint32// @lengthOf(
-rootA	,u32 options1 `say ""hi""` , @tag( 7
-    )// packet A { u8 x, }
-msg_type @lengthOf(
-stringy	)	, }
-
-")).
-Eval vm_compute in ("<<<M1123>>>" ++ check (runes_of_ascii "packet body { @rightPad /// triple
-( // " ++ [27880; 37322]%N ++ runes_of_ascii "
-'0') uint64 repeatCount , @lengthOf(o)@lengthOf(
-asx
-    // c
-    ) @lengthOf( MetaDataX ) match falsey // packet A { u8 x, }
-as
-x { ""a\\"":float
-    , } ,
-} // " ++ [27880; 37322]%N)).
-Eval vm_compute in ("<<<M4142>>>" ++ check (runes_of_ascii "
-
-  options
-{
-FixedStringPadChar
-=
-'0'	;  }
-packet 
-Q
-	{ zchar[ 
-4	]
-z  ,@rightPad ( '\x00'  )char[
-3] n ,char[
-5 ] d
-	,  } root packet
-
-R 
-{ Q ,
-    zchar[ 8
-	]top  ,	repeat zchar[ 2
-
-]
-    zs  , }
-")).
-Eval vm_compute in ("<<<M67>>>" ++ check (runes_of_ascii "MetaData Pad { Z9_
-    // c
-    pack ,u8 asx
-    , i32
-    MetaDataX , int8 // `tick` ""quote"" 'q'
-x_y_z ,u128 f32a, calculatedFrom calculatedFrom
-    `say ""hi""`  ,
-    // trailing space 
-    }
-")).
-Eval vm_compute in ("<<<M1077>>>" ++ check (runes_of_ascii "// @lengthOf(
-MetaData u
-{ char[]	float
-    ,u8
-    leftPad
+Eval vm_compute in ("<<<M1247>>>" ++ check (runes_of_ascii "packet As{ @calculatedFrom(
+""1"" // c
+)x_y_z f32a ,//	t
+repeat Packet, @leftPad
+( ' ' )float64
+msg_type @calculatedFrom(  ""it's"") `
 `
-` ,
-// a // b
-// a // b
-metadata
-string_ ,char[] // c
-Header
+,@lengthOf(/// triple
+i64_ ) // " ++ [128512]%N ++ runes_of_ascii " emoji
+trueish @lengthOf( charz )
+    ,
     // trailing space 
-    , zchar[
-    0123456789]  a1`
-` ,}
-")).
-Eval vm_compute in ("<<<M3754>>>" ++ check (runes_of_ascii "
-options  {
-
-// trailing space 
-	A=	' '
-;
-calculatedFrom
-// c
-	// a // b
-
-  = ""a\""b"" ; 
-msg_type=char[ 
-4294967296
-
-    ]	; 
-
-    //
-    	rootA=	'\x00' msg_type
-= 
-false
-	} ")).
-Eval vm_compute in ("<<<M1553>>>" ++ check (runes_of_ascii "root packet Foo // " ++ [128512]%N ++ runes_of_ascii " emoji
-{ } options {
-    // a // b
-    tag // `tick` ""quote"" 'q'
-= //	t
-""""
-    ; u8x = zchar[0  ] }
-MetaData
-    int {zchar[ 10]
-lengthOf	`` , i64 u8x")).
-Eval vm_compute in ("<<<M1051>>>" ++ check (runes_of_ascii "MetaData leftPad {
-    string int
-// c
-// " ++ [27880; 37322]%N ++ runes_of_ascii "
-`tab	here` // c
-, char[] f32a`u8 x,` ,zchar[ // @lengthOf(
-255 ]
-    uint8x
-, i32 x
-    `crlf
-line` ,// c
-i8 asx	,}
-")).
-Eval vm_compute in ("<<<M4240>>>" ++ check (runes_of_ascii "  // top
-	  MetaData 
-    // c0
-	  zchar 
-      // c1
-
-  {
-// c2
-	zchar[
-
-// c3
-	3
-	    // c4
-]
-    // c5
-
-  Pad
-
-    // c6
-  ,  
-  // c7
-  } 
-    // c8")).
-Eval vm_compute in ("<<<M3584>>>" ++ check (runes_of_ascii "packet A {
-    match k as n {
-        [
-            ""a"", ""bb"", ""c c"", ""d"", ""e"",
-            ""f"", ""g"", ""h"", ""i""
-        ] : B,
-        2 : C,
-    },
-}")).
-Eval vm_compute in ("<<<M3392>>>" ++ check (runes_of_ascii "MetaData _x
-    // c1
-{
-    // c2
-zchar[ 4294967296 // c4a
-  // c4b
-] lengthOf // c6
-`// not a comment` // c7a
-  // c7b
+    @rightPad ( '0' //x
+)
+Z9_ `" ++ [233]%N ++ runes_of_ascii "`
 ,
-    // c8
-}
-    // c9
+} // c")).
+Eval vm_compute in ("<<<M1070>>>" ++ check (runes_of_ascii "// packet A { u8 x, }
+packet string_ {
+char[4294967296 ]charz , } packet _x//x
+{ }
+packet As
+    { // @lengthOf(
+} root
+    packet
+string_
+{ i64
+u128 ,// `tick` ""quote"" 'q'
+} root // packet A { u8 x, }
+packet
+Foo {match // " ++ [128512]%N ++ runes_of_ascii " emoji
+A as Pad{ 1 :	u128 } , }
 ")).
-Eval vm_compute in ("<<<M977>>>" ++ check (runes_of_ascii "MetaData As
-    { u repeatCount//	t
-, zchar[ 0123456789] x//
-`two words`
-, float asx
-, falsey
-lengthOf  , char[] leftPad `crlf
-line` , }")).
-Eval vm_compute in ("<<<M3592>>>" ++ check (runes_of_ascii "  packet calculatedFrom{
-    @tag( 4294967296
-
-    )  u msg_type ,
-
-    char[	3]
-	crc@lengthOf(
-    // c
-len ) `u8 x,` ,
-
-    } ")).
-Eval vm_compute in ("<<<M4273>>>" ++ check (runes_of_ascii "root packet T {
-    string zchar,
-    zchar[3] stringy,
+Eval vm_compute in ("<<<M4260>>>" ++ check (runes_of_ascii "packet charz {
+    repeat Z9_ x,
+    @calculatedFrom(""`tick`"")
+    string A `crlf
+    line`,
+    repeat crc {
+        repeat u8x,
+        char[42] x @lengthOf(o),
+    },
 }
 
-packet rootA {
-    u {
-        repeatCount @lengthOf(o) `{ , }`,
+MetaData tag {
+    uint16 falsey `say ""hi""`,
+    i32 asx,
+    char[007] As,
+}")).
+Eval vm_compute in ("<<<M481>>>" ++ check (runes_of_ascii "MetaData	a1
+    { rootA
+i8i8 `crlf
+line`
+, } options { msg_type
+= 65535 Header  =false lengthOf = char[]	} packet stringy
+    { repeat chars chars `u8 x,` , }
+packet u128 // a // b
+{ repeat x
+    {  u16 As@calculatedFrom( ""`tick`""
+),} ,
+}
+")).
+Eval vm_compute in ("<<<M1044>>>" ++ check (runes_of_ascii "
+options{ len //
+= false // " ++ [128512]%N ++ runes_of_ascii " emoji
+}	options
+    { leftPad =
+""`tick`"" ;repeatCount
+= char[// " ++ [128512]%N ++ runes_of_ascii " emoji
+4294967296
+// c
+// trailing space 
+]chars = ""`tick`""}packet trueish{ u16  crc,
+@tag( 0123456789 ) string trueish `crlf
+line` , }")).
+Eval vm_compute in ("<<<M2346>>>" ++ check (runes_of_ascii "MetaData Packet { }packet	asx  { @lengthOf( asx) falsey`crlf
+line`
+,
+    }
+    packet x	{uint32// @lengthOf(
+rootA	,u32 options1 `say ""hi""` , @tag( 7
+    )// packet A { u8 x, }
+msg_type msg_type @lengthOf(
+stringy	)	, }
+
+")).
+Eval vm_compute in ("<<<M2223>>>" ++ check (runes_of_ascii "MetaData Packet @tag( }packet	asx  { @lengthOf( asx) falsey`crlf
+line`
+,
+    }
+    packet x	{uint32// @lengthOf(
+rootA	,u32 options1 `say ""hi""` , @tag( 7
+    )// packet A { u8 x, }
+msg_type @lengthOf(
+stringy	)	, }
+
+")).
+Eval vm_compute in ("<<<M2384>>>" ++ check (runes_of_ascii "MetaData Packet { }packet	asx  { @lengthOf( asx) falsey`crlf
+line`
+,
+    }
+    packet x	{uint32// @lengthOf(
+rootA	,u32 options1 `say ""hi""` , @tag( 7
+    )// packet A { ''u8 x, }
+msg_type @lengthOf(
+stringy	)	, }
+
+")).
+Eval vm_compute in ("<<<M2267>>>" ++ check (runes_of_ascii "MetaData Packet { }packet	asx  { @lengthOf( asx) falsey,
+`crlf
+line`
+    }
+    packet x	{uint32// @lengthOf(
+rootA	,u32 options1 `say ""hi""` , @tag( 7
+    )// packet A { u8 x, }
+msg_type @lengthOf(
+stringy	)	, }
+
+")).
+Eval vm_compute in ("<<<M2285>>>" ++ check (runes_of_ascii "MetaData Packet { }packet	asx  { @lengthOf( asx) falsey`crlf
+line`
+,
+    }
+    packet 	{uint32// @lengthOf(
+rootA	,u32 options1 `say ""hi""` , @tag( 7
+    )// packet A { u8 x, }
+msg_type @lengthOf(
+stringy	)	, }
+
+")).
+Eval vm_compute in ("<<<M1259>>>" ++ check (runes_of_ascii "packet
+x_y_z//x
+{@tag(	0123456789
+    )match // " ++ [27880; 37322]%N ++ runes_of_ascii "
+T	as	roots
+{ 255 : asx ,[
+    1
+    //x
+    ,
+    3 , ""`tick`"" ] : Header 3
+    :
+    pack// " ++ [128512]%N ++ runes_of_ascii " emoji
+},u64  a1/// triple
+`tab	here`
+,
+_x options1`{ , }` ,
+}")).
+Eval vm_compute in ("<<<M2353>>>" ++ check (runes_of_ascii "MetaData Packet { }packet	asx  { @lengthOf( asx) falsey`crlf
+line`
+,
+    }
+    packet x	{uint32// @lengthOf(
+rootA	,u32 options1 `say ""hi""` , @tag( 7
+    )// packet A { u8 x, }
+msg_type [
+stringy	)	, }
+
+")).
+Eval vm_compute in ("<<<M953>>>" ++ check (runes_of_ascii "
+root packet i64_
+    {rootA {	zchar[1 ]
+    packetx
+@calculatedFrom( ""1"" ),
+// @lengthOf(
+/// triple
+} ,
+} options // " ++ [128512]%N ++ runes_of_ascii " emoji
+{ chars = // trailing space 
+char[]  ; falsey
+    =
+    u32 ; } //x")).
+Eval vm_compute in ("<<<M1008>>>" ++ check (runes_of_ascii "MetaData stringy
+{ u len `line1
+line2`,zchar[42
+]
+pack
+    ,char[7 ] f32a //	t
+`say ""hi""` // @lengthOf(
+,
+    // a // b
+    char[
+    7] i8i8
+, }
+    packet// " ++ [128512]%N ++ runes_of_ascii " emoji
+float
+    { }
+// c
+")).
+Eval vm_compute in ("<<<M1118>>>" ++ check (runes_of_ascii "
+options{ // `tick` ""quote"" 'q'
+} options // packet A { u8 x, }
+{ As
+    = ""\n""
+// `tick` ""quote"" 'q'
+// a // b
+;	} MetaData
+    msg_type {string
+    trueish , } options { A= ""{,}"" ;}")).
+Eval vm_compute in ("<<<M1062>>>" ++ check (runes_of_ascii "packet body /// triple
+{ float32
+zchar @lengthOf(
+    x_y_z ), u64
+int @calculatedFrom(
+// trailing space 
+//
+""abc"" ) //x
+,
+    // " ++ [27880; 37322]%N ++ runes_of_ascii "
+    }
+root packet u
+    //x
+    { }
+")).
+Eval vm_compute in ("<<<M3798>>>" ++ check (runes_of_ascii "// top
+packet o {
+    // c2
+    @tag(42)
+    // c5
+    repeat x {
+        // c8
+        char[0123456789] i64_,// c13
+    },// c15
+}// c16
+
+options {
+    // c18
+}// c19")).
+Eval vm_compute in ("<<<M247>>>" ++ check (runes_of_ascii "packet
+Pad { } packet// packet A { u8 x, }
+len // a // b
+{ string u128 , } root packet o {
+@tag( 7
+) char[] msg_type @calculatedFrom( ""// no comment""
+)
+    ,}
+")).
+Eval vm_compute in ("<<<M4407>>>" ++ check (runes_of_ascii "packet A {
+    Inner {
+        match k as n {
+            [
+                1, 22, 007, 4, 5,
+                66, 7
+            ] : B,
+        },
     },
 }")).
-Eval vm_compute in ("<<<M3746>>>" ++ check (runes_of_ascii "
-
-  options	{// c
-  matchKey =
-	""a\""b""  ;
-
-a1  =
-    uint16
-	charz=
-
-    char[]
-    a1
-	=
-u8
-    ;As  = 00
-
-    ;
-
+Eval vm_compute in ("<<<M346>>>" ++ check (runes_of_ascii "packet BodyLength {repeat u128 charz ,
+i64 i64_
+@lengthOf(
+asx )
+,
+repeat
+    i64_ { repeat int `u8 x,` , //	t
+},repeat float32
+pack
+`" ++ [233]%N ++ runes_of_ascii "` ,
+    }")).
+Eval vm_compute in ("<<<M2334>>>" ++ check (runes_of_ascii "MetaData Packet { }packet	asx  { @lengthOf( asx) falsey`crlf
+line`
+,
     }
-")).
-Eval vm_compute in ("<<<M1710>>>" ++ check (runes_of_ascii "root packet /// triple
+    packet x	{uint32// @lengthOf(
+rootA	,u32 options1 `say ""hi""` ,")).
+Eval vm_compute in ("<<<M1722>>>" ++ check (runes_of_ascii "root packet /// triple
 rootA {	i32
+MetaDataX@calculatedFrom( ""CRC32"" ) `line1
+lin@lengthOfe2` , } MetaData BodyLength {
+u8
+rootA, } // c")).
+Eval vm_compute in ("<<<M120>>>" ++ check (runes_of_ascii "root
+packet Header
+    // packet A { u8 x, }
+    { // " ++ [27880; 37322]%N ++ runes_of_ascii "
+@lengthOf(
+rootA // a // b
+) int8 Foo//
+@lengthOf(	uint8x)`tab	here`
+,}
+")).
+Eval vm_compute in ("<<<M1173>>>" ++ check (runes_of_ascii "  options { BodyLength=
+// trailing space 
+// a // b
+char[]
+    ; lengthOf =
+    // @lengthOf(
+    i8 asx = 7 ; rootA= ""a\""b"" ; }
+")).
+Eval vm_compute in ("<<<M1640>>>" ++ check (runes_of_ascii "root packet /// triple
+rootA }	i32
 MetaDataX@calculatedFrom( ""CRC32"" ) `line1
 line2` , } MetaData BodyLength {
 u8
-rootA( } // c")).
-Eval vm_compute in ("<<<M4464>>>" ++ check (runes_of_ascii "
-// @lengthOf(
-	options { }
-    packet 
-pack
-{//
-	} options {
-	}MetaData msg_type
-
-    {}
-root
-
-packet repeatCount {  }
-")).
-Eval vm_compute in ("<<<M526>>>" ++ check (runes_of_ascii "packet options1 { @calculatedFrom( ""a\\""
-)  Logon	@calculatedFrom(
-""" ++ [233]%N ++ runes_of_ascii "t" ++ [233]%N ++ runes_of_ascii """ // c
-)`a\` ,
-float32 packetx
-    `
-` ,} // a // b")).
-Eval vm_compute in ("<<<M1863>>>" ++ check (runes_of_ascii "packet
-    Pad // a // b
-{ i8i8 @calculatedFrom( ""a	b"") `u8 x,` ,
-} options{ float// " ++ [128512]%N ++ runes_of_ascii " emoji
-= f64 i64_
-uint8//	t
-00 }
-")).
-Eval vm_compute in ("<<<M1879>>>" ++ check (runes_of_ascii "packet
-    Pad // a // b
-{ i8i8 @calculatedFrom( ""a	b"") `u8 x,` ,
-} options{ float// " ++ [128512]%N ++ runes_of_ascii " emoji
-= f64 i64_
-=//	t
-00 }
-@x")).
-Eval vm_compute in ("<<<M1493>>>" ++ check (runes_of_ascii "root packet Foo // " ++ [128512]%N ++ runes_of_ascii " emoji
-{ } options {
+rootA, } // c")).
+Eval vm_compute in ("<<<M874>>>" ++ check (runes_of_ascii "  options { Logon = 007	leftPad= true
+; repeatCount =
+    // trailing space 
+    0
     // a // b
-    tag // `tick` ""quote"" 'q'
-= //	t
-""""
-    ; u8x = zchar[0  ]")).
-Eval vm_compute in ("<<<M1825>>>" ++ check (runes_of_ascii "packet
-    Pad // a // b
-{ i8i8 @calculatedFrom( ""a	b"") `u8 x,` ,
- options{ float// " ++ [128512]%N ++ runes_of_ascii " emoji
-= f64 i64_
-=//	t
-00 }
-")).
-Eval vm_compute in ("<<<M1488>>>" ++ check (runes_of_ascii "root packet Foo // " ++ [128512]%N ++ runes_of_ascii " emoji
-{ } options {
-    // a // b
-    tag // `tick` ""quote"" 'q'
-= //	t
-""""
-    ; u8x = zchar[0")).
-Eval vm_compute in ("<<<M724>>>" ++ check (runes_of_ascii "MetaData float {
-tag
-    body `" ++ [233]%N ++ runes_of_ascii "`
-,f64 i8i8 `{ , }` , f32 chars `two words` , Pad
-i64_ // @lengthOf(
-,} //	t")).
-Eval vm_compute in ("<<<M4325>>>" ++ check (runes_of_ascii "packet	o
-	{	@tag( 
-42 )
-
-// c
-	repeat x	{
-
-    char[
-
-    0123456789 ] 
-i64_ 
-,
-
-} ,
-	}
-options
-
-{ 
+    u =	i32
+; f32a
+='0';
 }
 
 ")).
-Eval vm_compute in ("<<<M4339>>>" ++ check (runes_of_ascii "packet
-
-BodyLength
-
-{	@tag(
-3 ) int16
-	BodyLength,zchar[  1
-]
-body @calculatedFrom( ""`tick`""
-)
+Eval vm_compute in ("<<<M1045>>>" ++ check (runes_of_ascii "MetaData calculatedFrom { zchar[ 10]
+    u128 `doc` ,zchar[ 0123456789 ]
+    packetx ,char[]// trailing space 
+MetaDataX
 ,
-    }
+}")).
+Eval vm_compute in ("<<<M1856>>>" ++ check (runes_of_ascii "packet
+    Pad // a // b
+{ i8i8 @calculatedFrom( ""a	b"") `u8 x,` ,
+} options{ float// " ++ [128512]%N ++ runes_of_ascii " emoji
+= f64 i64_ i64_
+=//	t
+00 }
 ")).
-Eval vm_compute in ("<<<M3343>>>" ++ check (runes_of_ascii "packet calculatedFrom { // c
-@tag( 4294967296 ) u msg_type , char[ 3 ] crc @lengthOf( len ) `u8 x,` , }")).
-Eval vm_compute in ("<<<M3450>>>" ++ check (runes_of_ascii "
-options{
+Eval vm_compute in ("<<<M3831>>>" ++ check (runes_of_ascii "//	t
+options {
+    // c
+}
 
-    FixedStringPadFromLeft
+MetaData asx {
+    float64 x_y_z,
+}
 
-=
+options {
+    // packet A { u8 x, }
+    stringy = '0';
+}")).
+Eval vm_compute in ("<<<M1843>>>" ++ check (runes_of_ascii "packet
+    Pad // a // b
+{ i8i8 @calculatedFrom( ""a	b"") `u8 x,` ,
+} options{ repeat// " ++ [128512]%N ++ runes_of_ascii " emoji
+= f64 i64_
+=//	t
+00 }
+")).
+Eval vm_compute in ("<<<M1822>>>" ++ check (runes_of_ascii "packet
+    Pad // a // b
+{ i8i8 @calculatedFrom( ""a	b"") `u8 x,` }
+, options{ float// " ++ [128512]%N ++ runes_of_ascii " emoji
+= f64 i64_
+=//	t
+00 }
+")).
+Eval vm_compute in ("<<<M3792>>>" ++ check (runes_of_ascii "packet A {
+    u16 len @lengthOf(body) `a
+    b`,
+    u32 crc @calculatedFrom(""CRC32"") `a
+    b`,
+    string body,
+}")).
+Eval vm_compute in ("<<<M1483>>>" ++ check (runes_of_ascii "root packet Foo // " ++ [128512]%N ++ runes_of_ascii " emoji
+{ } options {
+    // a // b
+    tag // `tick` ""quote"" 'q'
+= //	t
+""""
+    ; u8x = zchar[")).
+Eval vm_compute in ("<<<M4389>>>" ++ check (runes_of_ascii "packet o 
+{
+    @tag( 
+42
 
-    true
-
-; } root
-	packet 
-P{
-    char[4
-]z 
+    )
+	repeat
+    x{
+    char[
+	0123456789 ]	i64_
+    // c
 ,
 
-    } ")).
-Eval vm_compute in ("<<<M2969>>>" ++ check (runes_of_ascii "packet A {
+}	,
+} options	{	}
+")).
+Eval vm_compute in ("<<<M862>>>" ++ check (runes_of_ascii "MetaData// " ++ [27880; 37322]%N ++ runes_of_ascii "
+Pad { roots options1`tab	here`
+, //	t
+char[ 0123456789
+// `tick` ""quote"" 'q'
+// c
+] Foo , }
+")).
+Eval vm_compute in ("<<<M901>>>" ++ check (runes_of_ascii "
+MetaData x{
+a1 // c
+repeatCount // packet A { u8 x, }
+`" ++ [233]%N ++ runes_of_ascii "` , u64 falsey //	t
+`" ++ [233]%N ++ runes_of_ascii "` ,  i64_ matchKey , }
+")).
+Eval vm_compute in ("<<<M3350>>>" ++ check (runes_of_ascii "packet calculatedFrom { @tag( 4294967296 )
+// c
+u msg_type , char[ 3 ] crc @lengthOf( len ) `u8 x,` , }")).
+Eval vm_compute in ("<<<M2952>>>" ++ check (runes_of_ascii "packet A {
   match k as n {
-    [""a"", 22, ""c c"", 4, ""e"", 66, ""g"", 8, ""i"", 10] : B,
+    [""a"", ""bb"", ""c c"", ""d"", ""e"", ""f"", ""g"", ""h"", ""i""] : B,
     2 : C
   },
 }")).
-Eval vm_compute in ("<<<M1997>>>" ++ check (runes_of_ascii "root
-packet crc
-    { f32a @calculatedFrom( """ ++ [233]%N ++ runes_of_ascii "t" ++ [233]%N ++ runes_of_ascii """ )
-    `say ""hi""` `say ""hi""`, lengthOf `` ,  }")).
-Eval vm_compute in ("<<<M3225>>>" ++ check (runes_of_ascii "packet Logon { @tag( 42
-// c
-) @rightPad ( ' ' ) @leftPad ( ) repeat trueish { string T , } , }")).
-Eval vm_compute in ("<<<M3257>>>" ++ check (runes_of_ascii "packet Logon { @tag( 42 ) @rightPad ( ' ' ) @leftPad ( ) repeat trueish { string T , } ,
-// c
+Eval vm_compute in ("<<<M4265>>>" ++ check (runes_of_ascii "  packet
+
+T
+
+{ 
+@lengthOf(	As	)
+    u8x	`tab	here`  , }MetaData
+    f32a{uint64
+
+    trueish, 
+} ")).
+Eval vm_compute in ("<<<M2990>>>" ++ check (runes_of_ascii "packet A {
+  match k as n {
+    [1, 22, 007, 4, 5, 66, 7, 8, 9, 10, 11, 12] : B
+    2 : C
+  },
+}")).
+Eval vm_compute in ("<<<M3226>>>" ++ check (runes_of_ascii "packet Logon { @tag( 42 ) // c
+@rightPad ( ' ' ) @leftPad ( ) repeat trueish { string T , } , }")).
+Eval vm_compute in ("<<<M3706>>>" ++ check (runes_of_ascii "MetaData charz {
+    Pad tag `two words`,
+    u32 matchKey,
+    u128 Foo,
+    char[255] body,
 }")).
 Eval vm_compute in ("<<<M2954>>>" ++ check (runes_of_ascii "packet A {
   match k as n {
@@ -2587,188 +2723,197 @@ Eval vm_compute in ("<<<M2954>>>" ++ check (runes_of_ascii "packet A {
     2 : C
   },
 }")).
-Eval vm_compute in ("<<<M1961>>>" ++ check (runes_of_ascii "@leftPad
+Eval vm_compute in ("<<<M4318>>>" ++ check (runes_of_ascii "
+options{	T  =
+' 'asx
+= '\x00'	; 
+falsey 	 /// triple
+    =' ' 
+// " ++ [128512]%N ++ runes_of_ascii " emoji
+// c
+    } ")).
+Eval vm_compute in ("<<<M1681>>>" ++ check (runes_of_ascii "root packet /// triple
+rootA {	i32
+MetaDataX@calculatedFrom( ""CRC32"" ) `line1
+line2` ,")).
+Eval vm_compute in ("<<<M2037>>>" ++ check (runes_of_ascii "r#oot
 packet crc
     { f32a @calculatedFrom( """ ++ [233]%N ++ runes_of_ascii "t" ++ [233]%N ++ runes_of_ascii """ )
     `say ""hi""`, lengthOf `` ,  }")).
-Eval vm_compute in ("<<<M2036>>>" ++ check (runes_of_ascii "root
+Eval vm_compute in ("<<<M2800>>>" ++ check (runes_of_ascii "@tag( ) true @calculatedFrom( repeat ] as `say ""hi""` char[ MetaData i32 int16 i32 f32")).
+Eval vm_compute in ("<<<M2011>>>" ++ check (runes_of_ascii "root
 packet crc
     { f32a @calculatedFrom( """ ++ [233]%N ++ runes_of_ascii "t" ++ [233]%N ++ runes_of_ascii """ )
-    `say ""hi""`, \ lengthOf `` ,  }")).
-Eval vm_compute in ("<<<M1968>>>" ++ check (runes_of_ascii "root
-packet {
-    crc f32a @calculatedFrom( """ ++ [233]%N ++ runes_of_ascii "t" ++ [233]%N ++ runes_of_ascii """ )
-    `say ""hi""`, lengthOf `` ,  }")).
-Eval vm_compute in ("<<<M2946>>>" ++ check (runes_of_ascii "packet A {
+    `say ""hi""`, lengthOf  ,  }")).
+Eval vm_compute in ("<<<M3292>>>" ++ check (runes_of_ascii "// c
+packet o { @tag( 42 ) repeat x { char[ 0123456789 ] i64_ , } , } options { }")).
+Eval vm_compute in ("<<<M3325>>>" ++ check (runes_of_ascii "packet o { @tag( 42 ) repeat x { char[ 0123456789 ] i64_ , } ,
+// c
+} options { }")).
+Eval vm_compute in ("<<<M946>>>" ++ check (runes_of_ascii "
+MetaData As
+    { } // @lengthOf(
+MetaData  crc {
+float64 lengthOf `it's` , }")).
+Eval vm_compute in ("<<<M2887>>>" ++ check (runes_of_ascii "packet A {
   match k as n {
-    [1, 22, ""c c"", 4, 5, ""f"", 7, 8] : B
+    [""a"", ""bb"", ""c c"", ""d""] : B,
     2 : C
   },
 }")).
-Eval vm_compute in ("<<<M1958>>>" ++ check (runes_of_ascii "
-packet crc
-    { f32a @calculatedFrom( """ ++ [233]%N ++ runes_of_ascii "t" ++ [233]%N ++ runes_of_ascii """ )
-    `say ""hi""`, lengthOf `` ,  }")).
-Eval vm_compute in ("<<<M3316>>>" ++ check (runes_of_ascii "packet o { @tag( 42 ) repeat x { char[ 0123456789 ] // c
-i64_ , } , } options { }")).
-Eval vm_compute in ("<<<M3467>>>" ++ check (runes_of_ascii "
-
-  root 
-packet
-    P	{ u8 s_u8
-
-, 
-repeat
-
-    u8 r_u8 ,	u16 b_len
-    ,  } ")).
-Eval vm_compute in ("<<<M2006>>>" ++ check (runes_of_ascii "root
-packet crc
-    { f32a @calculatedFrom( """ ++ [233]%N ++ runes_of_ascii "t" ++ [233]%N ++ runes_of_ascii """ )
-    `say ""hi""`,  `` ,  }")).
-Eval vm_compute in ("<<<M4039>>>" ++ check (runes_of_ascii "root
-    packet crc{ f32a @calculatedFrom(
-
-""" ++ [233]%N ++ runes_of_ascii "t" ++ [233]%N ++ runes_of_ascii """)
-
-,
-    lengthOf``
-	, }
-")).
-Eval vm_compute in ("<<<M2198>>>" ++ check (runes_of_ascii "root
-    // `'\x01'tick` ""quote"" 'q'
-    packet As { trueish Packet , }
-")).
-Eval vm_compute in ("<<<M2209>>>" ++ check (runes_of_ascii "root
-    // `tick` ""quote"" 'q'
-    packet caf" ++ [233]%N ++ runes_of_ascii "_1 { trueish Packet , }
-")).
-Eval vm_compute in ("<<<M1981>>>" ++ check (runes_of_ascii "root
-packet crc
-    { f32a  """ ++ [233]%N ++ runes_of_ascii "t" ++ [233]%N ++ runes_of_ascii """ )
-    `say ""hi""`, lengthOf `` ,  }")).
-Eval vm_compute in ("<<<M2880>>>" ++ check (runes_of_ascii "packet A {
+Eval vm_compute in ("<<<M2903>>>" ++ check (runes_of_ascii "packet A {
   match k as n {
-    [1, 22, ""c c""] : B,
+    [1, ""bb"", 007, ""d"", 5] : B
     2 : C
   },
 }")).
-Eval vm_compute in ("<<<M2168>>>" ++ check (runes_of_ascii "root
-    // `tick` ""quote"" 'q'
-    packet As trueish { Packet , }
-")).
-Eval vm_compute in ("<<<M1174>>>" ++ check (runes_of_ascii "options { asx = '\x00'// packet A { u8 x, }
-;
-    float = '0';
-}")).
-Eval vm_compute in ("<<<M1897>>>" ++ check (runes_of_ascii "
-packet packet	As { @calculatedFrom(//x
-""{,}""	)lengthOf , } 	 ")).
-Eval vm_compute in ("<<<M2176>>>" ++ check (runes_of_ascii "root
-    // `tick` ""quote"" 'q'
-    packet As { trueish  , }
-")).
-Eval vm_compute in ("<<<M2694>>>" ++ check (runes_of_ascii "true MetaDataX as ""a\""b"" = u64 : i64 int16 @lengthOf( char")).
-Eval vm_compute in ("<<<M473>>>" ++ check (runes_of_ascii "packet len {	Logon@calculatedFrom( // a // b
-""a\""b""
-), }")).
-Eval vm_compute in ("<<<M3957>>>" ++ check (runes_of_ascii "MetaData
-    zchar	{
-zchar[
+Eval vm_compute in ("<<<M4285>>>" ++ check (runes_of_ascii "packet
+A
+    {
+match  k
+as
+	n
+	{
 
-3] 
-	    // c
+    [	""a"",
+22  ]  :B
+2:
+	C
 
-  Pad  ,}")).
-Eval vm_compute in ("<<<M2407>>>" ++ check (runes_of_ascii "MetaData A
-{
-i64
-chars	, match // `tick` ""quote"" 'q'")).
-Eval vm_compute in ("<<<M2411>>>" ++ check (runes_of_ascii "\ MetaData A
-{
-i64
-chars	, } // `tick` ""quote"" 'q'")).
-Eval vm_compute in ("<<<M644>>>" ++ check (runes_of_ascii "// trailing space 
-packet chars { string len , }")).
-Eval vm_compute in ("<<<M2148>>>" ++ check (runes_of_ascii "MetaData x
-@lengthOf{// " ++ [128512]%N ++ runes_of_ascii " emoji
-i16 stringy , }")).
-Eval vm_compute in ("<<<M1121>>>" ++ check (runes_of_ascii "options{ MetaDataX=// @lengthOf(
-true
-    ; }")).
-Eval vm_compute in ("<<<M4267>>>" ++ check (runes_of_ascii "
-options {
-i8i8
-    ='0'	;	asx
-
-=uint32
-} ")).
-Eval vm_compute in ("<<<M2115>>>" ++ check (runes_of_ascii "MetaData x
-{// " ++ [128512]%N ++ runes_of_ascii " emoji
-i16 i16 stringy , }")).
-Eval vm_compute in ("<<<M4219>>>" ++ check (runes_of_ascii "
-options {	metadata
-
-    =  ""packet""} ")).
-Eval vm_compute in ("<<<M3194>>>" ++ check (runes_of_ascii "MetaData zchar { // c
-zchar[ 3 ] Pad , }")).
-Eval vm_compute in ("<<<M2809>>>" ++ check (runes_of_ascii "MetaData `` ; @calculatedFrom( MetaData")).
-Eval vm_compute in ("<<<M4200>>>" ++ check (runes_of_ascii "options {
-    int = ""\" ++ [233]%N ++ runes_of_ascii """// " ++ [128512]%N ++ runes_of_ascii " emoji
-}//")).
-Eval vm_compute in ("<<<M2602>>>" ++ check (runes_of_ascii "packet A { match k as n { 1 : B }, }")).
-Eval vm_compute in ("<<<M1136>>>" ++ check (runes_of_ascii "root packet //	t
-packetx { //x
-}")).
-Eval vm_compute in ("<<<M3784>>>" ++ check (runes_of_ascii "options {
-    MetaDataX = true;
-}")).
-Eval vm_compute in ("<<<M776>>>" ++ check (runes_of_ascii "options { falsey = false
-    }
-")).
-Eval vm_compute in ("<<<M3088>>>" ++ check (runes_of_ascii "packet A {
- u8 x `d" ++ [8192]%N ++ runes_of_ascii "`, // c" ++ [8192]%N ++ runes_of_ascii "
-}")).
-Eval vm_compute in ("<<<M4315>>>" ++ check (runes_of_ascii "packet	// c
-  lengthOf
-{  }
-")).
-Eval vm_compute in ("<<<M2596>>>" ++ check (runes_of_ascii "packet A { B { u8 x, } C, }")).
-Eval vm_compute in ("<<<M2591>>>" ++ check (runes_of_ascii "packet A { u8 x @tag(1), }")).
-Eval vm_compute in ("<<<M3165>>>" ++ check (runes_of_ascii "options { a = 1 // a
- ; }")).
-Eval vm_compute in ("<<<M3271>>>" ++ check (runes_of_ascii "options // c
-{ u8x = 3 }")).
-Eval vm_compute in ("<<<M2703>>>" ++ check (runes_of_ascii "U" ++ [65533]%N ++ runes_of_ascii "D" ++ [65533; 65533]%N ++ runes_of_ascii "4O	" ++ [65533; 65533]%N ++ runes_of_ascii "a" ++ [65533; 65533]%N ++ runes_of_ascii "P" ++ [65533; 8; 65533; 27]%N ++ runes_of_ascii "H" ++ [65533; 426]%N ++ runes_of_ascii "F" ++ [65533]%N)).
-Eval vm_compute in ("<<<M3833>>>" ++ check (runes_of_ascii "MetaData
-
-Header{
-
+} ,
 }
 
 ")).
-Eval vm_compute in ("<<<M409>>>" ++ check (runes_of_ascii "MetaData leftPad	{}
+Eval vm_compute in ("<<<M2169>>>" ++ check (runes_of_ascii "root
+    // `tick` ""quote"" 'q'
+    packet As false trueish Packet , }
 ")).
-Eval vm_compute in ("<<<M2637>>>" ++ check (runes_of_ascii "root MetaData M { }")).
-Eval vm_compute in ("<<<M2846>>>" ++ check (runes_of_ascii "Q,OfTqw6\RO}Mcbo,K")).
-Eval vm_compute in ("<<<M3137>>>" ++ check (runes_of_ascii "// c" ++ [65279]%N ++ runes_of_ascii "
-packet A {
+Eval vm_compute in ("<<<M4426>>>" ++ check (runes_of_ascii "
+
+  // " ++ [128512]%N ++ runes_of_ascii " emoji
+  packet
+
+roots 
+// trailing space 
+{} // @lengthOf(
+")).
+Eval vm_compute in ("<<<M2207>>>" ++ check (runes_of_ascii "\ root
+    // `tick` ""quote"" 'q'
+    packet As { trueish Packet , }
+")).
+Eval vm_compute in ("<<<M2155>>>" ++ check (runes_of_ascii "packet
+    // `tick` ""quote"" 'q'
+    root As { trueish Packet , }
+")).
+Eval vm_compute in ("<<<M4121>>>" ++ check (runes_of_ascii "packet  A
+    {B b  `a
+b` ,B `a
+b`, repeat B
+
+    bs `a
+b`	,
+}
+")).
+Eval vm_compute in ("<<<M1453>>>" ++ check (runes_of_ascii "root packet Foo // " ++ [128512]%N ++ runes_of_ascii " emoji
+{ } options {
+    // a // b
+    tag")).
+Eval vm_compute in ("<<<M2157>>>" ++ check (runes_of_ascii "root
+    // `tick` ""quote"" 'q'
+     As { trueish Packet , }
+")).
+Eval vm_compute in ("<<<M2694>>>" ++ check (runes_of_ascii "true MetaDataX as ""a\""b"" = u64 : i64 int16 @lengthOf( char")).
+Eval vm_compute in ("<<<M57>>>" ++ check (runes_of_ascii "MetaData stringy { uint8
+//x
+// @lengthOf(
+string_
+, }
+")).
+Eval vm_compute in ("<<<M2269>>>" ++ check (runes_of_ascii "MetaData Packet { }packet	asx  { @lengthOf( asx) falsey")).
+Eval vm_compute in ("<<<M3737>>>" ++ check (runes_of_ascii "  MetaData
+	zchar {	zchar[
+	3  ]Pad
+,
+
+    }	// c")).
+Eval vm_compute in ("<<<M3164>>>" ++ check (runes_of_ascii "packet A { u8 x, } // a
+// b
+packet B {} // c
+// d")).
+Eval vm_compute in ("<<<M841>>>" ++ check (runes_of_ascii "root
+// @lengthOf(
+// @lengthOf(
+packet f32a
+{
 }")).
-Eval vm_compute in ("<<<M3079>>>" ++ check (runes_of_ascii "packet A {
-}// c" ++ [5760]%N)).
-Eval vm_compute in ("<<<M325>>>" ++ check (runes_of_ascii "packet Z9_ {	}
+Eval vm_compute in ("<<<M2581>>>" ++ check (runes_of_ascii "packet A { char[] x @calculatedFrom(""c"") `d`, }")).
+Eval vm_compute in ("<<<M405>>>" ++ check (runes_of_ascii "options
+    { x
+=
+    //	t
+    zchar[65535 ]}")).
+Eval vm_compute in ("<<<M2831>>>" ++ check (runes_of_ascii "char[ ( true f32 packet u64 255 string false")).
+Eval vm_compute in ("<<<M1719>>>" ++ check (runes_of_ascii "root packet /// triple
+rootA {	i32
+MetaDa")).
+Eval vm_compute in ("<<<M4045>>>" ++ check (runes_of_ascii "
+
+  options{ metadata
+=""packet""
+
+    }")).
+Eval vm_compute in ("<<<M3193>>>" ++ check (runes_of_ascii "MetaData zchar
+// c
+{ zchar[ 3 ] Pad , }")).
+Eval vm_compute in ("<<<M2149>>>" ++ check (runes_of_ascii "Met" ++ [0]%N ++ runes_of_ascii "aData x
+{// " ++ [128512]%N ++ runes_of_ascii " emoji
+i16 stringy , }")).
+Eval vm_compute in ("<<<M3730>>>" ++ check (runes_of_ascii "MetaData u128 {
+    uint32 lengthOf,
+}")).
+Eval vm_compute in ("<<<M2194>>>" ++ check (runes_of_ascii "root
+    // `tick` ""quote"" 'q'
+    p")).
+Eval vm_compute in ("<<<M2589>>>" ++ check (runes_of_ascii "packet A { x @calculatedFrom(c), }")).
+Eval vm_compute in ("<<<M1766>>>" ++ check (runes_of_ascii "options { }options {  } // `tick")).
+Eval vm_compute in ("<<<M3884>>>" ++ check (runes_of_ascii "packet A {
+    // a
+    u8 x,
+}")).
+Eval vm_compute in ("<<<M3118>>>" ++ check (runes_of_ascii "packet A {
+ u8 x `d" ++ [11]%N ++ runes_of_ascii "`, // c" ++ [11]%N ++ runes_of_ascii "
+}")).
+Eval vm_compute in ("<<<M2059>>>" ++ check (runes_of_ascii "MetaData A match u64 pack, }")).
+Eval vm_compute in ("<<<M2731>>>" ++ check ([14; 3]%N ++ runes_of_ascii "AV" ++ [65533; 65533; 65533]%N ++ runes_of_ascii "r" ++ [4]%N ++ runes_of_ascii "+{e" ++ [65533; 65533; 65533]%N ++ runes_of_ascii ";&" ++ [65533; 65533; 3; 3; 65533]%N ++ runes_of_ascii "Q" ++ [65533]%N ++ runes_of_ascii "+G" ++ [5]%N)).
+Eval vm_compute in ("<<<M2625>>>" ++ check (runes_of_ascii "packet A { u8 x, @tag(1) }")).
+Eval vm_compute in ("<<<M3282>>>" ++ check (runes_of_ascii "options { u8x = 3 }
+// c
 ")).
-Eval vm_compute in ("<<<M2827>>>" ++ check (runes_of_ascii ";,1Ws PvAg=KMJ")).
-Eval vm_compute in ("<<<M2485>>>" ++ check (runes_of_ascii "@lengthOf (")).
-Eval vm_compute in ("<<<M4384>>>" ++ check (runes_of_ascii "
-// c" ++ [8239]%N ++ runes_of_ascii "
+Eval vm_compute in ("<<<M3274>>>" ++ check (runes_of_ascii "options {
+// c
+u8x = 3 }")).
+Eval vm_compute in ("<<<M2703>>>" ++ check (runes_of_ascii "U" ++ [65533]%N ++ runes_of_ascii "D" ++ [65533; 65533]%N ++ runes_of_ascii "4O	" ++ [65533; 65533]%N ++ runes_of_ascii "a" ++ [65533; 65533]%N ++ runes_of_ascii "P" ++ [65533; 8; 65533; 27]%N ++ runes_of_ascii "H" ++ [65533; 426]%N ++ runes_of_ascii "F" ++ [65533]%N)).
+Eval vm_compute in ("<<<M3600>>>" ++ check (runes_of_ascii "packet A {
+} 	 // c" ++ [12288]%N ++ runes_of_ascii "
 ")).
-Eval vm_compute in ("<<<M3578>>>" ++ check (runes_of_ascii "// c" ++ [65279]%N ++ runes_of_ascii "
+Eval vm_compute in ("<<<M477>>>" ++ check (runes_of_ascii "MetaData pack
+{ } 	 ")).
+Eval vm_compute in ("<<<M2643>>>" ++ check (runes_of_ascii "MetaData M { x y, }")).
+Eval vm_compute in ("<<<M2747>>>" ++ check ([65533; 65533; 1; 65533; 65533; 65533; 65533]%N ++ runes_of_ascii "@" ++ [65533; 767]%N ++ runes_of_ascii "<x2" ++ [65533; 65533]%N ++ runes_of_ascii "Xq" ++ [65533]%N)).
+Eval vm_compute in ("<<<M3124>>>" ++ check (runes_of_ascii "packet A {
+}// c 	")).
+Eval vm_compute in ("<<<M3064>>>" ++ check (runes_of_ascii "packet A {
+}// c" ++ [12288]%N)).
+Eval vm_compute in ("<<<M126>>>" ++ check (runes_of_ascii "packet	float{ }")).
+Eval vm_compute in ("<<<M4263>>>" ++ check (runes_of_ascii "packet crc {
+}")).
+Eval vm_compute in ("<<<M2791>>>" ++ check (runes_of_ascii "f['U26$ht_8")).
+Eval vm_compute in ("<<<M2455>>>" ++ check (runes_of_ascii "optionss")).
+Eval vm_compute in ("<<<M2423>>>" ++ check (runes_of_ascii "char[]")).
+Eval vm_compute in ("<<<M2458>>>" ++ check (runes_of_ascii "roots")).
+Eval vm_compute in ("<<<M3890>>>" ++ check (runes_of_ascii "
+// x")).
+Eval vm_compute in ("<<<M2134>>>" ++ check (runes_of_ascii "Met")).
+Eval vm_compute in ("<<<M56>>>" ++ check (runes_of_ascii "
 ")).
-Eval vm_compute in ("<<<M2428>>>" ++ check (runes_of_ascii "chars")).
-Eval vm_compute in ("<<<M3105>>>" ++ check (runes_of_ascii "// c" ++ [8239]%N)).
-Eval vm_compute in ("<<<M2679>>>" ++ check (runes_of_ascii "
-	 ")).
-Eval vm_compute in ("<<<M2549>>>" ++ check (runes_of_ascii "a" ++ [8232]%N ++ runes_of_ascii "b")).
-Eval vm_compute in ("<<<M18>>>" ++ check (runes_of_ascii "
-")).
+Eval vm_compute in ("<<<M2532>>>" ++ check (runes_of_ascii "_")).
